@@ -1,6 +1,6 @@
 (* First invariants of the request-direction model (MReq.v), each for EVERY configuration, callback oracle,
    parser state and input. *)
-Require Import Htp.Model.MConnTypes Htp.Model.MTxCommon Htp.Model.MBstr Htp.Model.MReqLine Htp.Model.MTxReq Htp.Model.MReq.
+Require Import Htp.Model.MConnTypes Htp.Model.MTxCommon Htp.Model.MBstr Htp.Model.MReqLine Htp.Model.MReqUri Htp.Model.MTxReq Htp.Model.MReq.
 Local Open Scope Z_scope.
 
 (* ---- req_buffer_bounded ----
@@ -138,3 +138,1323 @@ Corollary req_data_sticky_no_event cb g data len c :
   c_events (fst (connp_req_data cb g data len c)) = c_events c /\
   c_in_status (fst (connp_req_data cb g data len c)) = c_in_status c.
 Proof. intros H. rewrite (req_data_sticky cb g data len c H). split; reflexivity. Qed.
+
+(* ---- frame facts: what the callback / transaction layer cannot touch ---- *)
+(* the part of the parser the byte-level states own: cursor minus the receiver bookkeeping, stream status, body counters *)
+Definition rq_core (c : connp) :=
+  (k_data (c_in c), k_len (c_in c), k_read (c_in c), k_consume (c_in c), k_next_byte (c_in c), k_buf (c_in c), k_header (c_in c),
+   c_in_status c, c_in_body_data_left c, c_in_chunked_length c).
+Definition rq_core_st (c : connp) := (rq_core c, c_in_state c).
+
+Lemma tx_put_core c i t : rq_core_st (tx_put c i t) = rq_core_st c.
+Proof. unfold tx_put. destruct (i <? c_txs_shifted c)%nat; [reflexivity|]. destruct (_ <? _)%nat; reflexivity. Qed.
+Lemma tx_upd_core c i f : rq_core_st (tx_upd c i f) = rq_core_st c.
+Proof. unfold tx_upd. destruct (tx_slot c i); [apply tx_put_core|reflexivity]. Qed.
+Lemma tx_destroy_incomplete_core c i : rq_core_st (tx_destroy_incomplete c i) = rq_core_st c.
+Proof.
+  unfold tx_destroy_incomplete.
+  destruct (i <? c_txs_shifted c)%nat; cbn;
+  repeat match goal with |- context [match ?x with _ => _ end] => destruct x; cbn end; reflexivity.
+Qed.
+Lemma tx_destroy_core c i : rq_core_st (tx_destroy c i) = rq_core_st c.
+Proof. unfold tx_destroy. destruct (tx_slot c i); [|reflexivity]. destruct (tx_is_complete t); [apply tx_destroy_incomplete_core|reflexivity]. Qed.
+
+Lemma run_hook_ex_core cb h i d l s c : rq_core_st (snd (run_hook_ex cb h i d l s c)) = rq_core_st c.
+Proof.
+  unfold run_hook_ex. destruct (cb h (hook_count c h)); cbn [snd]; rewrite ?tx_upd_core, ?tx_destroy_core; reflexivity.
+Qed.
+
+Lemma run_hook_core cb h i c : rq_core_st (snd (run_hook cb h i c)) = rq_core_st c.
+Proof. apply run_hook_ex_core. Qed.
+Lemma run_data_hook_core cb h i d l c : rq_core_st (snd (run_data_hook cb h i d l c)) = rq_core_st c.
+Proof. apply run_hook_ex_core. Qed.
+Lemma run_tx_hooks_core k h i d l c : rq_core_st (run_tx_hooks k h i d l c) = rq_core_st c.
+Proof. revert c. induction k as [|k IH]; intros c; cbn [run_tx_hooks]; [reflexivity|]. rewrite IH. reflexivity. Qed.
+Lemma req_run_hook_body_data_core cb d l c : rq_core_st (snd (req_run_hook_body_data cb d l c)) = rq_core_st c.
+Proof.
+  unfold req_run_hook_body_data.
+  destruct d as [[|x d]|]; try reflexivity; destruct (c_in_tx c); try reflexivity;
+    rewrite run_data_hook_core, run_tx_hooks_core; reflexivity.
+Qed.
+Lemma tx_req_process_body_data_ex_core cb i d n c : rq_core_st (snd (tx_req_process_body_data_ex cb i d n c)) = rq_core_st c.
+Proof.
+  unfold tx_req_process_body_data_ex.
+  match goal with |- context [req_run_hook_body_data cb ?a ?b ?c0] =>
+    pose proof (req_run_hook_body_data_core cb a b c0) as H; destruct (req_run_hook_body_data cb a b c0) as [rc c1] end.
+  cbn [snd] in H. rewrite tx_upd_core in H. destruct rc; cbn [snd]; exact H.
+Qed.
+Lemma req_receiver_send_data_core cb l c : rq_core_st (snd (req_receiver_send_data cb l c)) = rq_core_st c.
+Proof.
+  unfold req_receiver_send_data. destruct (k_receiver_hook (c_in c)); [|reflexivity].
+  match goal with |- context [run_data_hook cb ?h ?i ?d ?l0 ?c0] =>
+    pose proof (run_data_hook_core cb h i d l0 c0) as H; destruct (run_data_hook cb h i d l0 c0) as [rc c1] end.
+  cbn [snd] in H.
+  assert (H0 : rq_core_st c1 = rq_core_st c).
+  { rewrite H. destruct (_ <? _)%nat; reflexivity. }
+  destruct rc; cbn [snd]; exact H0.
+Qed.
+Lemma req_receiver_finalize_clear_core cb c : rq_core_st (snd (req_receiver_finalize_clear cb c)) = rq_core_st c.
+Proof.
+  unfold req_receiver_finalize_clear. destruct (k_receiver_hook (c_in c)); [|reflexivity].
+  pose proof (req_receiver_send_data_core cb true c) as H. destruct (req_receiver_send_data cb true c) as [rc c1].
+  cbn [snd] in *. rewrite <- H. reflexivity.
+Qed.
+Lemma tx_finalize_core cb g i c : rq_core_st (snd (tx_finalize cb g i c)) = rq_core_st c.
+Proof.
+  unfold tx_finalize. destruct (tx_slot c i) as [t|]; [|reflexivity].
+  destruct (negb (tx_is_complete t)); [reflexivity|].
+  pose proof (run_hook_ex_core cb H_TRANSACTION_COMPLETE i None false (Some t) c) as H.
+  destruct (run_hook_ex cb H_TRANSACTION_COMPLETE i None false (Some t) c) as [rc c1]. cbn [snd] in H.
+  destruct rc; cbn [snd]; try exact H.
+  destruct (tx_slot c1 i); cbn [snd]; [|rewrite <- H; reflexivity].
+  destruct (g_tx_auto_destroy g); rewrite ?tx_destroy_core; exact H.
+Qed.
+Lemma tx_state_request_complete_partial_core cb i c :
+  rq_core_st (snd (tx_state_request_complete_partial cb i c)) = rq_core_st c.
+Proof.
+  unfold tx_state_request_complete_partial.
+  destruct (tx_req_has_body (tx_get c i)).
+  - pose proof (tx_req_process_body_data_ex_core cb i None 0 c) as H.
+    destruct (tx_req_process_body_data_ex cb i None 0 c) as [rc c1]. cbn [snd] in H.
+    destruct rc; cbn [snd]; try exact H.
+    match goal with |- context [run_hook cb ?h ?j ?c0] =>
+      pose proof (run_hook_core cb h j c0) as H1; destruct (run_hook cb h j c0) as [rc2 c2] end.
+    cbn [snd] in H1. rewrite tx_upd_core in H1.
+    destruct rc2; cbn [snd]; rewrite ?req_receiver_finalize_clear_core; congruence.
+  - match goal with |- context [run_hook cb ?h ?j ?c0] =>
+      pose proof (run_hook_core cb h j c0) as H1; destruct (run_hook cb h j c0) as [rc2 c2] end.
+    cbn [snd] in H1. rewrite tx_upd_core in H1.
+    destruct rc2; cbn [snd]; rewrite ?req_receiver_finalize_clear_core; congruence.
+Qed.
+
+(* results of the callback / transaction layer are OK, ERROR or STOP: never a "need more data" code *)
+Definition rq_hookrc (rc : st) : Prop := rc = ST_OK \/ rc = ST_ERROR \/ rc = ST_STOP.
+Lemma run_hook_ex_rc cb h i d l s c : rq_hookrc (fst (run_hook_ex cb h i d l s c)).
+Proof. unfold run_hook_ex, rq_hookrc. destruct (cb h (hook_count c h)); cbn; tauto. Qed.
+Lemma req_receiver_send_data_rc cb l c : rq_hookrc (fst (req_receiver_send_data cb l c)).
+Proof.
+  unfold req_receiver_send_data. destruct (k_receiver_hook (c_in c)); [|unfold rq_hookrc; cbn; tauto].
+  match goal with |- context [run_data_hook cb ?h ?i ?d ?l0 ?c0] =>
+    pose proof (run_hook_ex_rc cb h i d l0 None c0) as H; unfold run_data_hook; destruct (run_hook_ex cb h i d l0 None c0) as [rc c1] end.
+  cbn [fst] in H. destruct rc; cbn [fst]; exact H.
+Qed.
+Lemma req_receiver_finalize_clear_rc cb c : rq_hookrc (fst (req_receiver_finalize_clear cb c)).
+Proof.
+  unfold req_receiver_finalize_clear. destruct (k_receiver_hook (c_in c)); [|unfold rq_hookrc; cbn; tauto].
+  pose proof (req_receiver_send_data_rc cb true c) as H. destruct (req_receiver_send_data cb true c). exact H.
+Qed.
+Lemma tx_req_process_body_data_ex_rc cb i d n c : rq_hookrc (fst (tx_req_process_body_data_ex cb i d n c)).
+Proof.
+  unfold tx_req_process_body_data_ex.
+  match goal with |- context [req_run_hook_body_data cb ?a ?b ?c0] => destruct (req_run_hook_body_data cb a b c0) as [rc c1] end.
+  unfold rq_hookrc. destruct rc; cbn; tauto.
+Qed.
+Lemma tx_state_request_complete_partial_rc cb i c : rq_hookrc (fst (tx_state_request_complete_partial cb i c)).
+Proof.
+  unfold tx_state_request_complete_partial.
+  assert (G : forall c0, rq_hookrc (fst (match run_hook cb H_REQUEST_COMPLETE i c0 with
+                                         | (ST_OK, c2) => req_receiver_finalize_clear cb c2 | r => r end))).
+  { intros c0. pose proof (run_hook_ex_rc cb H_REQUEST_COMPLETE i None false None c0) as H.
+    unfold run_hook. destruct (run_hook_ex cb H_REQUEST_COMPLETE i None false None c0) as [rc2 c2]. cbn [fst] in H.
+    destruct rc2; try exact H. apply req_receiver_finalize_clear_rc. }
+  destruct (tx_req_has_body (tx_get c i)).
+  - pose proof (tx_req_process_body_data_ex_rc cb i None 0 c) as H.
+    destruct (tx_req_process_body_data_ex cb i None 0 c) as [rc c1]. cbn [fst] in H.
+    destruct rc; try exact H; try (destruct H as [H|[H|H]]; discriminate). apply G.
+  - apply G.
+Qed.
+
+Lemma rq_core_of_st a b : rq_core_st a = rq_core_st b -> rq_core a = rq_core b /\ c_in_state a = c_in_state b.
+Proof. intros H. split; [exact (f_equal fst H)|exact (f_equal snd H)]. Qed.
+
+(* htp_tx_state_request_complete: core untouched; the state is left alone or becomes IDLE / IGNORE_DATA_AFTER_HTTP_0_9 *)
+Lemma tx_state_request_complete_spec cb g i c :
+  let r := tx_state_request_complete cb g i c in
+  rq_core (snd r) = rq_core c /\ rq_hookrc (fst r) /\
+  (c_in_state (snd r) = c_in_state c \/ c_in_state (snd r) = REQ_IDLE \/ c_in_state (snd r) = REQ_IGNORE_DATA_AFTER_HTTP_0_9).
+Proof.
+  cbv zeta. unfold tx_state_request_complete.
+  destruct (tx_slot c i) as [t0|]; [|cbn; unfold rq_hookrc; repeat split; tauto].
+  assert (G : forall c1, rq_core_st c1 = rq_core_st c ->
+    let r := (let c2 := match tx_slot c1 i with
+               | None => c1 <| c_fault := true |>
+               | Some t => c1 <| c_in_state := if t_is_protocol_0_9 t then REQ_IGNORE_DATA_AFTER_HTTP_0_9 else REQ_IDLE |>
+               end in let '(_, c3) := tx_finalize cb g i c2 in (ST_OK, c3 <| c_in_tx := None |>)) in
+    rq_core (snd r) = rq_core c /\ rq_hookrc (fst r) /\
+    (c_in_state (snd r) = c_in_state c \/ c_in_state (snd r) = REQ_IDLE \/ c_in_state (snd r) = REQ_IGNORE_DATA_AFTER_HTTP_0_9)).
+  { intros c1 H1. cbv zeta. apply rq_core_of_st in H1. destruct H1 as [H1c H1s].
+    set (c2 := match tx_slot c1 i with None => _ | Some t => _ end).
+    pose proof (tx_finalize_core cb g i c2) as H2. destruct (tx_finalize cb g i c2) as [rc3 c3]. cbn [snd fst] in *.
+    apply rq_core_of_st in H2. destruct H2 as [H2c H2s].
+    assert (Hc : rq_core c2 = rq_core c) by (subst c2; destruct (tx_slot c1 i); rewrite <- H1c; reflexivity).
+    repeat split.
+    - change (rq_core (c3 <| c_in_tx := None |>)) with (rq_core c3). congruence.
+    - unfold rq_hookrc; tauto.
+    - change (c_in_state (c3 <| c_in_tx := None |>)) with (c_in_state c3). rewrite H2s. subst c2.
+      destruct (tx_slot c1 i) as [t|]; cbn.
+      + destruct (t_is_protocol_0_9 t); tauto.
+      + left. exact H1s. }
+  destruct (negb (t_request_progress t0 =? c_HTP_REQUEST_COMPLETE)).
+  - pose proof (tx_state_request_complete_partial_core cb i c) as H.
+    pose proof (tx_state_request_complete_partial_rc cb i c) as Hr.
+    destruct (tx_state_request_complete_partial cb i c) as [rc c1]. cbn [fst snd] in H, Hr.
+    destruct rc; try (apply (G c1 H)); cbn [fst snd]; apply rq_core_of_st in H; destruct H as [Hc Hs]; repeat split; tauto.
+  - apply (G c). reflexivity.
+Qed.
+
+Lemma rq_tx_upd_core f c : rq_core_st (rq_tx_upd f c) = rq_core_st c.
+Proof. unfold rq_tx_upd. destruct (c_in_tx c); [apply tx_upd_core|reflexivity]. Qed.
+
+Ltac rq_fin := repeat split; first [congruence | assumption | left; congruence | tauto].
+
+(* htp_tx_state_request_start *)
+Lemma tx_state_request_start_spec cb i c :
+  let r := tx_state_request_start cb i c in
+  rq_core (snd r) = rq_core c /\ rq_hookrc (fst r) /\
+  (c_in_state (snd r) = c_in_state c \/ c_in_state (snd r) = REQ_LINE).
+Proof.
+  cbv zeta. unfold tx_state_request_start.
+  pose proof (run_hook_core cb H_REQUEST_START i c) as H. pose proof (run_hook_ex_rc cb H_REQUEST_START i None false None c) as Hr.
+  unfold run_hook in *. destruct (run_hook_ex cb H_REQUEST_START i None false None c) as [rc c1]. cbn [fst snd] in *.
+  apply rq_core_of_st in H. destruct H as [Hc Hs].
+  destruct rc; cbn [fst snd]; try rq_fin.
+  repeat split; [|unfold rq_hookrc; tauto|right].
+  - destruct (c_in_tx (c1 <| c_in_state := REQ_LINE |>)); [|rewrite <- Hc; reflexivity].
+    pose proof (tx_upd_core (c1 <| c_in_state := REQ_LINE |>) n (fun t => t <| t_request_progress := c_HTP_REQUEST_LINE |>)) as H.
+    apply rq_core_of_st in H. destruct H as [H _]. rewrite H, <- Hc. reflexivity.
+  - destruct (c_in_tx (c1 <| c_in_state := REQ_LINE |>)); [|reflexivity].
+    pose proof (tx_upd_core (c1 <| c_in_state := REQ_LINE |>) n (fun t => t <| t_request_progress := c_HTP_REQUEST_LINE |>)) as H.
+    apply rq_core_of_st in H. destruct H as [_ H]. rewrite H. reflexivity.
+Qed.
+
+(* htp_tx_state_request_line *)
+Lemma tx_state_request_line_spec cb g i c :
+  let r := tx_state_request_line cb g i c in
+  rq_core (snd r) = rq_core c /\ rq_hookrc (fst r) /\
+  (c_in_state (snd r) = c_in_state c \/ c_in_state (snd r) = REQ_PROTOCOL).
+Proof.
+  cbv zeta. unfold tx_state_request_line.
+  match goal with |- context [rq_uri_pipeline_opt ?a ?b ?u ?t] => destruct (rq_uri_pipeline_opt a b u t) as [t'|] end;
+    [|cbn; unfold rq_hookrc; repeat split; tauto].
+  pose proof (tx_put_core c i t') as H0. apply rq_core_of_st in H0. destruct H0 as [H0c H0s].
+  pose proof (run_hook_core cb H_REQUEST_URI_NORMALIZE i (tx_put c i t')) as H.
+  pose proof (run_hook_ex_rc cb H_REQUEST_URI_NORMALIZE i None false None (tx_put c i t')) as Hr.
+  unfold run_hook in *. destruct (run_hook_ex cb H_REQUEST_URI_NORMALIZE i None false None (tx_put c i t')) as [rc c1]. cbn [fst snd] in *.
+  apply rq_core_of_st in H. destruct H as [Hc Hs].
+  destruct rc; cbn [fst snd]; try rq_fin.
+  pose proof (run_hook_core cb H_REQUEST_LINE i c1) as H. pose proof (run_hook_ex_rc cb H_REQUEST_LINE i None false None c1) as Hr2.
+  unfold run_hook in *. destruct (run_hook_ex cb H_REQUEST_LINE i None false None c1) as [rc2 c2]. cbn [fst snd] in *.
+  apply rq_core_of_st in H. destruct H as [Hc2 Hs2].
+  destruct rc2; cbn [fst snd]; try rq_fin.
+  repeat split; [|unfold rq_hookrc; tauto|right; reflexivity].
+  change (rq_core (c2 <| c_in_state := REQ_PROTOCOL |>)) with (rq_core c2). congruence.
+Qed.
+
+(* htp_tx_process_request_headers / htp_tx_state_request_headers *)
+Lemma tx_process_request_headers_spec cb i c :
+  let r := tx_process_request_headers cb i c in
+  rq_core_st (snd r) = rq_core_st c /\ rq_hookrc (fst r).
+Proof.
+  cbv zeta. unfold tx_process_request_headers.
+  set (t1 := rq_te_cl (tx_get c i)).
+  destruct (match t_parsed_uri t1 with Some nu => (rq_host nu t1, false) | None => (t1, true) end) as [t2 fault].
+  set (c1 := if fault then _ else _).
+  assert (H1 : rq_core_st c1 = rq_core_st c).
+  { subst c1. destruct fault; cbn; rewrite <- (tx_put_core c i (rq_content_type t2)); reflexivity. }
+  pose proof (req_receiver_finalize_clear_core cb c1) as H. pose proof (req_receiver_finalize_clear_rc cb c1) as Hr.
+  destruct (req_receiver_finalize_clear cb c1) as [rc c2]. cbn [fst snd] in *.
+  destruct rc; cbn [fst snd]; try (split; [congruence|exact Hr]).
+  split; [rewrite run_hook_core; congruence|apply run_hook_ex_rc].
+Qed.
+
+Lemma tx_state_request_headers_spec cb i c :
+  let r := tx_state_request_headers cb i c in
+  rq_core (snd r) = rq_core c /\ rq_hookrc (fst r) /\
+  (c_in_state (snd r) = c_in_state c \/ c_in_state (snd r) = REQ_FINALIZE \/ c_in_state (snd r) = REQ_CONNECT_CHECK).
+Proof.
+  cbv zeta. unfold tx_state_request_headers.
+  destruct (c_HTP_REQUEST_HEADERS <? t_request_progress (tx_get c i)).
+  - pose proof (run_hook_core cb H_REQUEST_TRAILER i c) as H. pose proof (run_hook_ex_rc cb H_REQUEST_TRAILER i None false None c) as Hr.
+    unfold run_hook in *. destruct (run_hook_ex cb H_REQUEST_TRAILER i None false None c) as [rc c1]. cbn [fst snd] in *.
+    apply rq_core_of_st in H. destruct H as [Hc Hs].
+    destruct rc; cbn [fst snd]; try rq_fin.
+    pose proof (req_receiver_finalize_clear_core cb c1) as H. pose proof (req_receiver_finalize_clear_rc cb c1) as Hr2.
+    destruct (req_receiver_finalize_clear cb c1) as [rc2 c2]. cbn [fst snd] in *.
+    apply rq_core_of_st in H. destruct H as [Hc2 Hs2].
+    destruct rc2; cbn [fst snd]; try rq_fin.
+    repeat split; [|unfold rq_hookrc; tauto|tauto].
+    change (rq_core (c2 <| c_in_state := REQ_FINALIZE |>)) with (rq_core c2). congruence.
+  - destruct (c_HTP_REQUEST_LINE <=? t_request_progress (tx_get c i)); [|cbn; unfold rq_hookrc; repeat split; tauto].
+    set (c1 := if negb (c_in_chunk_count c =? c_in_chunk_request_index c)%nat then _ else c).
+    assert (H1 : rq_core_st c1 = rq_core_st c) by (subst c1; destruct (negb _); [apply tx_upd_core|reflexivity]).
+    pose proof (tx_process_request_headers_spec cb i c1) as H. cbv zeta in H.
+    destruct (tx_process_request_headers cb i c1) as [rc c2]. cbn [fst snd] in *. destruct H as [H Hr].
+    rewrite H1 in H. apply rq_core_of_st in H. destruct H as [Hc Hs].
+    destruct rc; cbn [fst snd]; rq_fin.
+Qed.
+
+(* ---- per-pass facts about the byte-level states ---- *)
+Definition rq_len (c : connp) : nat := k_len (c_in c).
+Definition rq_rd (c : connp) : nat := k_read (c_in c).
+Definition rq_cs (c : connp) : nat := k_consume (c_in c).
+(* REQ_BODY_IDENTITY / REQ_BODY_CHUNKED_DATA are entered with a non-zero amount left and left when it reaches zero *)
+Definition rq_inv (c : connp) : Prop :=
+  match c_in_state c with
+  | REQ_BODY_IDENTITY => c_in_body_data_left c <> 0
+  | REQ_BODY_CHUNKED_DATA => c_in_chunked_length c <> 0
+  | _ => True
+  end.
+Definition rq_plain (s : req_state) : Prop := s <> REQ_BODY_IDENTITY /\ s <> REQ_BODY_CHUNKED_DATA.
+Lemma rq_inv_plain c : rq_plain (c_in_state c) -> rq_inv c.
+Proof. unfold rq_inv, rq_plain. destruct (c_in_state c); tauto. Qed.
+
+(* the caller's chunk is what the cursor says it is: offsets ordered, and a non-NULL chunk has in_current_len bytes *)
+Definition rq_wf (c : connp) : Prop :=
+  (rq_rd c <= rq_len c)%nat /\ (rq_cs c <= rq_rd c)%nat /\
+  match k_data (c_in c) with Some d => (rq_len c <= length d)%nat | None => True end.
+Definition rq_pre (c : connp) : Prop := rq_wf c /\ rq_inv c.
+
+(* positions and counters only *)
+Definition rq_pos (c : connp) := (k_len (c_in c), k_read (c_in c), c_in_body_data_left c, c_in_chunked_length c, k_data (c_in c)).
+Lemma rq_pos_of_core a b : rq_core a = rq_core b -> rq_pos a = rq_pos b /\ rq_cs a = rq_cs b.
+Proof. unfold rq_core, rq_pos, rq_cs. intros H. injection H as H1 H2 H3 H4 H5 H6 H7 H8 H9 H10. split; congruence. Qed.
+Lemma rq_pos_of_core_st a b : rq_core_st a = rq_core_st b -> rq_pos a = rq_pos b /\ rq_cs a = rq_cs b /\ c_in_state a = c_in_state b.
+Proof. intros H. apply rq_core_of_st in H. destruct H as [H Hs]. apply rq_pos_of_core in H. tauto. Qed.
+
+(* what one pass (a state function returning rc) guarantees *)
+Definition rq_step_ok (c c' : connp) (rc : st) : Prop :=
+  rq_len c' = rq_len c /\ k_data (c_in c') = k_data (c_in c) /\ (rq_rd c <= rq_rd c')%nat /\ rq_pre c' /\
+  ((rc = ST_DATA \/ rc = ST_DATA_BUFFER) -> rq_rd c' = rq_len c').
+
+(* same position, consume offset still behind the read offset, state unchanged or plain: everything is kept *)
+Lemma rq_step_same c c' rc :
+  rq_pre c ->
+  rq_pos c' = rq_pos c -> (rq_cs c' <= rq_rd c')%nat -> (c_in_state c' = c_in_state c \/ rq_plain (c_in_state c')) ->
+  rq_hookrc rc \/ rq_rd c = rq_len c ->
+  rq_step_ok c c' rc.
+Proof.
+  unfold rq_step_ok, rq_pre, rq_wf, rq_len, rq_rd, rq_cs, rq_pos. intros [(Hb & Hc & Hd) Hi] Hp Hcs Hs Hr. injection Hp as Hl Hrd Hbl Hch Hda.
+  rewrite Hl, Hrd, Hda. repeat split; try lia; try assumption.
+  - destruct Hs as [Hs|Hs]; [|apply rq_inv_plain; exact Hs]. unfold rq_inv in *. rewrite Hs, Hbl, Hch. exact Hi.
+  - intros Hx. destruct Hr as [Hr|Hr]; [|exact Hr]. unfold rq_hookrc in Hr. destruct Hx as [->| ->]; destruct Hr as [Hr|[Hr|Hr]]; discriminate.
+Qed.
+
+(* macros *)
+Lemma rq_read_byte_pos c : rq_core_st (fst (rq_read_byte c)) = rq_core_st c.
+Proof. unfold rq_read_byte. destruct (k_data (c_in c)); [destruct (nth_error b _)|]; reflexivity. Qed.
+Lemma rq_peek_next_pos c : rq_pos (rq_peek_next c) = rq_pos c /\ rq_cs (rq_peek_next c) = rq_cs c /\ c_in_state (rq_peek_next c) = c_in_state c /\
+                            (k_next_byte (c_in (rq_peek_next c)) = None <-> (rq_len c <= rq_rd c)%nat).
+Proof.
+  unfold rq_peek_next, rq_at_end, rq_len, rq_rd. destruct (k_len (c_in c) <=? k_read (c_in c))%nat eqn:E.
+  - apply Nat.leb_le in E. cbn. repeat split; auto.
+  - apply Nat.leb_gt in E. pose proof (rq_read_byte_pos c) as H. destruct (rq_read_byte c) as [c1 b]. cbn [fst] in H.
+    apply rq_pos_of_core_st in H. destruct H as (Hp & Hc & Hs). cbn. repeat split; try assumption; [discriminate|lia].
+Qed.
+Lemma rq_copy_byte_some c c' : rq_copy_byte c = Some c' ->
+  rq_len c' = rq_len c /\ rq_rd c' = S (rq_rd c) /\ rq_cs c' = rq_cs c /\ (rq_rd c < rq_len c)%nat /\ c_in_state c' = c_in_state c /\
+  c_in_body_data_left c' = c_in_body_data_left c /\ c_in_chunked_length c' = c_in_chunked_length c /\ k_data (c_in c') = k_data (c_in c).
+Proof.
+  unfold rq_copy_byte, rq_at_end, rq_len, rq_rd, rq_cs. destruct (k_len (c_in c) <=? k_read (c_in c))%nat eqn:E; [discriminate|].
+  apply Nat.leb_gt in E. pose proof (rq_read_byte_pos c) as H. destruct (rq_read_byte c) as [c1 b]. cbn [fst] in H.
+  apply rq_pos_of_core_st in H. destruct H as (Hp & Hc & Hs). injection Hp as H1 H2 H3 H4 H5. unfold rq_cs in Hc.
+  intros Hx. injection Hx as <-. cbn. repeat split; congruence || lia.
+Qed.
+Lemma rq_copy_byte_none c : rq_copy_byte c = None -> (rq_len c <= rq_rd c)%nat.
+Proof.
+  unfold rq_copy_byte, rq_at_end, rq_len, rq_rd. destruct (k_len (c_in c) <=? k_read (c_in c))%nat eqn:E.
+  - intros _. apply Nat.leb_le in E. exact E.
+  - destruct (rq_read_byte c). discriminate.
+Qed.
+Lemma rq_next_byte_some c c' : rq_next_byte c = Some c' ->
+  rq_len c' = rq_len c /\ rq_rd c' = S (rq_rd c) /\ rq_cs c' = S (rq_cs c) /\ (rq_rd c < rq_len c)%nat /\ c_in_state c' = c_in_state c /\
+  c_in_body_data_left c' = c_in_body_data_left c /\ c_in_chunked_length c' = c_in_chunked_length c /\ k_data (c_in c') = k_data (c_in c).
+Proof.
+  unfold rq_next_byte, rq_at_end, rq_len, rq_rd, rq_cs. destruct (k_len (c_in c) <=? k_read (c_in c))%nat eqn:E; [discriminate|].
+  apply Nat.leb_gt in E. pose proof (rq_read_byte_pos c) as H. destruct (rq_read_byte c) as [c1 b]. cbn [fst] in H.
+  apply rq_pos_of_core_st in H. destruct H as (Hp & Hc & Hs). injection Hp as H1 H2 H3 H4 H5. unfold rq_cs in Hc.
+  intros Hx. injection Hx as <-. cbn. repeat split; congruence || lia.
+Qed.
+Lemma rq_next_byte_none c : rq_next_byte c = None -> (rq_len c <= rq_rd c)%nat.
+Proof.
+  unfold rq_next_byte, rq_at_end, rq_len, rq_rd. destruct (k_len (c_in c) <=? k_read (c_in c))%nat eqn:E.
+  - intros _. apply Nat.leb_le in E. exact E.
+  - destruct (rq_read_byte c). discriminate.
+Qed.
+
+Lemma rq_slice_pos c from to : rq_core_st (fst (rq_slice c from to)) = rq_core_st c.
+Proof.
+  unfold rq_slice. destruct (k_data (c_in c)); [destruct (to <=? length b)%nat|destruct (to <=? from)%nat]; reflexivity.
+Qed.
+(* the buffer functions move the consume offset up to the read offset at most *)
+Definition rq_moved (c c' : connp) : Prop :=
+  rq_pos c' = rq_pos c /\ c_in_state c' = c_in_state c /\ (rq_cs c' = rq_cs c \/ rq_cs c' = rq_rd c').
+Lemma rq_moved_refl c : rq_moved c c.
+Proof. unfold rq_moved. tauto. Qed.
+Lemma rq_moved_trans a b c : rq_moved a b -> rq_moved b c -> rq_moved a c.
+Proof.
+  unfold rq_moved. intros (P1 & S1 & C1) (P2 & S2 & C2). repeat split; try congruence.
+  destruct C2 as [C2|C2]; [|tauto]. destruct C1 as [C1|C1]; [left; congruence|right].
+  unfold rq_pos, rq_rd in *. injection P2 as _ H _ _ _. congruence.
+Qed.
+Lemma rq_moved_core a b : rq_core_st b = rq_core_st a -> rq_moved a b.
+Proof. intros H. apply rq_pos_of_core_st in H. unfold rq_moved. tauto. Qed.
+
+Lemma req_buffer_moved g c : rq_moved c (snd (req_buffer g c)).
+Proof.
+  unfold req_buffer. destruct (k_data (c_in c)); [|apply rq_moved_refl].
+  set (c1 := if (k_read (c_in c) <? k_consume (c_in c))%nat then rq_fault c else c).
+  assert (H1 : rq_moved c c1) by (subst c1; destruct (_ <? _)%nat; apply rq_moved_core; reflexivity).
+  destruct (_ =? 0)%nat; [exact H1|].
+  set (c2 := match c_in_tx c1 with Some _ => c1 | None => rq_fault c1 end).
+  assert (H2 : rq_moved c c2) by (subst c2; destruct (c_in_tx c1); [exact H1|eapply rq_moved_trans; [exact H1|apply rq_moved_core; reflexivity]]).
+  destruct (g_field_limit_hard g <? _)%nat; [exact H2|].
+  pose proof (rq_slice_pos c2 (k_consume (c_in c2)) (k_read (c_in c2))) as H3.
+  destruct (rq_slice c2 (k_consume (c_in c2)) (k_read (c_in c2))) as [c3 piece]. cbn [fst snd] in *.
+  eapply rq_moved_trans; [exact H2|]. apply rq_pos_of_core_st in H3. destruct H3 as (P3 & C3 & S3).
+  unfold rq_moved, rq_pos, rq_cs, rq_rd, rq_set_in in *. cbn. repeat split; try congruence. right. reflexivity.
+Qed.
+Lemma req_consolidate_data_moved g c : rq_moved c (snd (fst (req_consolidate_data g c))).
+Proof.
+  unfold req_consolidate_data. destruct (k_buf (c_in c)).
+  - pose proof (req_buffer_moved g c) as H. destruct (req_buffer g c) as [rc c1]. destruct rc; exact H.
+  - pose proof (rq_slice_pos c (k_consume (c_in c)) (k_read (c_in c))) as H.
+    destruct (rq_slice c (k_consume (c_in c)) (k_read (c_in c))). apply rq_moved_core. exact H.
+Qed.
+Lemma req_clear_buffer_moved c : rq_moved c (req_clear_buffer c).
+Proof. unfold rq_moved. repeat split. right. reflexivity. Qed.
+Lemma rq_tx_upd_moved f c : rq_moved c (rq_tx_upd f c).
+Proof. apply rq_moved_core. apply rq_tx_upd_core. Qed.
+
+(* a moved parser still satisfies the precondition and yields the same pass facts *)
+Lemma rq_pre_moved c c1 : rq_moved c c1 -> rq_pre c -> rq_pre c1.
+Proof.
+  unfold rq_moved, rq_pre, rq_wf, rq_pos, rq_len, rq_rd, rq_cs, rq_inv. intros (P & S & C) [(Hb & Hc & Hd) Hi].
+  injection P as H1 H2 H3 H4 H5. rewrite S, H1, H2, H3, H4, H5. repeat split; try assumption. unfold rq_cs, rq_rd in C. lia.
+Qed.
+Lemma rq_step_via c c1 c' rc : rq_moved c c1 -> rq_step_ok c1 c' rc -> rq_step_ok c c' rc.
+Proof.
+  unfold rq_moved, rq_step_ok, rq_pos, rq_len, rq_rd. intros (P & S & C) F. injection P as H1 H2 H3 H4 H5.
+  rewrite H1, H2, H5 in F. exact F.
+Qed.
+Lemma rq_step_moved c c' rc : rq_pre c -> rq_moved c c' -> rq_hookrc rc \/ rq_rd c = rq_len c -> rq_step_ok c c' rc.
+Proof.
+  intros Hp Hm Hr. pose proof (rq_pre_moved c c' Hm Hp) as Hp'. destruct Hm as (P & S & C).
+  apply rq_step_same; try assumption; [|left; exact S]. destruct Hp' as [(_ & H & _) _]. exact H.
+Qed.
+
+Lemma rq_step_adv c c2 c' rc :
+  rq_len c2 = rq_len c -> k_data (c_in c2) = k_data (c_in c) -> (rq_rd c <= rq_rd c2)%nat ->
+  rq_step_ok c2 c' rc -> rq_step_ok c c' rc.
+Proof. unfold rq_step_ok. intros H1 H2 H3 (A1 & A2 & A3 & A4 & A5). split; [congruence|split; [congruence|split; [lia|split; [exact A4|exact A5]]]]. Qed.
+
+Lemma rq_pre_copy c c2 : rq_pre c -> rq_copy_byte c = Some c2 -> rq_pre c2 /\ (rq_cs c2 < rq_rd c2)%nat.
+Proof.
+  intros [(Hb & Hc & Hd) Hi] H. apply rq_copy_byte_some in H. destruct H as (H1 & H2 & H3 & H4 & H5 & H6 & H7 & H8).
+  unfold rq_pre, rq_wf, rq_inv in *. rewrite H1, H2, H3, H5, H6, H7, H8. repeat split; try lia; assumption.
+Qed.
+Lemma rq_pre_next c c2 : rq_pre c -> rq_next_byte c = Some c2 -> rq_pre c2.
+Proof.
+  intros [(Hb & Hc & Hd) Hi] H. apply rq_next_byte_some in H. destruct H as (H1 & H2 & H3 & H4 & H5 & H6 & H7 & H8).
+  unfold rq_pre, rq_wf, rq_inv in *. rewrite H1, H2, H3, H5, H6, H7, H8. repeat split; try lia; assumption.
+Qed.
+
+(* a chunk that has just been read from yields a non-empty consolidated region *)
+Lemma rq_slice_nonempty c from to d :
+  k_data (c_in c) = Some d -> (from < to)%nat -> (to <= length d)%nat -> snd (rq_slice c from to) <> [].
+Proof.
+  intros Hd Hlt Hle. unfold rq_slice. rewrite Hd. replace (to <=? length d)%nat with true by (symmetry; apply Nat.leb_le; exact Hle).
+  cbn. intros E. apply (f_equal (@length N)) in E. rewrite firstn_length, skipn_length in E. cbn in E. lia.
+Qed.
+Lemma req_consolidate_nonempty g c :
+  rq_wf c -> (rq_cs c < rq_rd c)%nat -> k_data (c_in c) <> None ->
+  fst (fst (req_consolidate_data g c)) = ST_OK -> snd (req_consolidate_data g c) <> [].
+Proof.
+  intros (Hb & Hc & Hd) Hlt Hn. unfold rq_len, rq_rd, rq_cs in *. destruct (k_data (c_in c)) as [d|] eqn:Ed; [|congruence].
+  unfold req_consolidate_data. destruct (k_buf (c_in c)) as [b|] eqn:Eb.
+  - unfold req_buffer. rewrite Ed.
+    replace (k_read (c_in c) - k_consume (c_in c) =? 0)%nat with false by (symmetry; apply Nat.eqb_neq; lia).
+    set (c1 := if (k_read (c_in c) <? k_consume (c_in c))%nat then rq_fault c else c).
+    assert (H1 : c_in c1 = c_in c) by (subst c1; destruct (k_read (c_in c) <? k_consume (c_in c))%nat; reflexivity).
+    set (c2 := match c_in_tx c1 with Some _ => c1 | None => rq_fault c1 end).
+    assert (H2 : c_in c2 = c_in c) by (subst c2; destruct (c_in_tx c1); exact H1).
+    destruct (g_field_limit_hard g <? _)%nat; [cbn; discriminate|].
+    pose proof (rq_slice_nonempty c2 (k_consume (c_in c2)) (k_read (c_in c2)) d) as Hs.
+    pose proof (rq_slice_pos c2 (k_consume (c_in c2)) (k_read (c_in c2))) as Hp.
+    destruct (rq_slice c2 (k_consume (c_in c2)) (k_read (c_in c2))) as [c3 piece]. cbn [fst snd] in *.
+    intros _. unfold rq_set_in. cbn.
+    assert (Hk : k_buf (c_in c3) = Some b).
+    { apply rq_core_of_st in Hp. destruct Hp as [Hp _]. unfold rq_core in Hp. injection Hp as _ _ _ _ _ Hp _ _ _ _. rewrite Hp, H2. exact Eb. }
+    rewrite Hk. rewrite H2 in Hs. specialize (Hs Ed ltac:(lia) ltac:(lia)). destruct b; cbn; [exact Hs|discriminate].
+  - pose proof (rq_slice_nonempty c (k_consume (c_in c)) (k_read (c_in c)) d Ed ltac:(lia) ltac:(lia)) as Hs.
+    destruct (rq_slice c (k_consume (c_in c)) (k_read (c_in c))). cbn in *. intros _. exact Hs.
+Qed.
+
+Section Steps.
+Variable cb : cb_oracle.
+Variable g : cfg.
+
+Lemma rq_hookrc_error : rq_hookrc ST_ERROR. Proof. unfold rq_hookrc. tauto. Qed.
+Lemma rq_hookrc_ok : rq_hookrc ST_OK. Proof. unfold rq_hookrc. tauto. Qed.
+Lemma rq_hookrc_not_data rc : rq_hookrc rc -> ~ (rc = ST_DATA \/ rc = ST_DATA_BUFFER).
+Proof. unfold rq_hookrc. intros [->|[->| ->]] [H|H]; discriminate. Qed.
+
+(* the tx-state functions applied to in_tx: cursor untouched, result OK/ERROR/STOP, state kept or plain *)
+Lemma rq_tx_fn_step (f : nat -> connp -> st * connp) (S : req_state -> Prop) c rc c' :
+  (forall i c0, rq_core (snd (f i c0)) = rq_core c0 /\ rq_hookrc (fst (f i c0)) /\
+                (c_in_state (snd (f i c0)) = c_in_state c0 \/ S (c_in_state (snd (f i c0))))) ->
+  (forall s, S s -> rq_plain s) ->
+  rq_pre c -> rq_with_tx f c = (rc, c') -> rq_step_ok c c' rc /\ rq_hookrc rc.
+Proof.
+  intros F HS Hp H. unfold rq_with_tx in H. destruct (c_in_tx c) as [i|].
+  - specialize (F i c). rewrite H in F. cbn [fst snd] in F. destruct F as (Sc & Sr & Ss). split; [|exact Sr].
+    apply rq_pos_of_core in Sc. destruct Sc as [Sp Scs].
+    apply rq_step_same; auto.
+    + destruct Hp as [(_ & Hc & _) _]. unfold rq_pos, rq_rd in *. injection Sp as _ Hr _ _ _. unfold rq_cs in *. lia.
+    + destruct Ss as [Ss|Ss]; [left; exact Ss|right; apply HS; exact Ss].
+  - injection H as <- <-. split; [|apply rq_hookrc_error]. apply rq_step_moved; auto using rq_moved_refl, rq_hookrc_error.
+Qed.
+Lemma rq_request_complete_step c rc c' : rq_pre c -> rq_request_complete cb g c = (rc, c') -> rq_step_ok c c' rc /\ rq_hookrc rc.
+Proof.
+  apply (rq_tx_fn_step (tx_state_request_complete cb g) (fun s => s = REQ_IDLE \/ s = REQ_IGNORE_DATA_AFTER_HTTP_0_9)).
+  - intros i c0. exact (tx_state_request_complete_spec cb g i c0).
+  - intros s [->| ->]; split; discriminate.
+Qed.
+Lemma rq_request_line_step c rc c' : rq_pre c -> rq_with_tx (tx_state_request_line cb g) c = (rc, c') -> rq_step_ok c c' rc /\ rq_hookrc rc.
+Proof.
+  apply (rq_tx_fn_step (tx_state_request_line cb g) (fun s => s = REQ_PROTOCOL)).
+  - intros i c0. exact (tx_state_request_line_spec cb g i c0).
+  - intros s ->; split; discriminate.
+Qed.
+Lemma rq_request_headers_step c rc c' : rq_pre c -> rq_with_tx (tx_state_request_headers cb) c = (rc, c') -> rq_step_ok c c' rc /\ rq_hookrc rc.
+Proof.
+  apply (rq_tx_fn_step (tx_state_request_headers cb) (fun s => s = REQ_FINALIZE \/ s = REQ_CONNECT_CHECK)).
+  - intros i c0. exact (tx_state_request_headers_spec cb i c0).
+  - intros s [->| ->]; split; discriminate.
+Qed.
+Lemma rq_body_data_step d n c rc c' :
+  rq_pre c -> rq_with_tx (fun i => tx_req_process_body_data_ex cb i d n) c = (rc, c') -> rq_step_ok c c' rc /\ rq_hookrc rc /\ rq_moved c c'.
+Proof.
+  intros Hp H.
+  assert (A : rq_step_ok c c' rc /\ rq_hookrc rc).
+  { revert Hp H. apply (rq_tx_fn_step (fun i => tx_req_process_body_data_ex cb i d n) (fun _ => False)).
+    - intros i c0. pose proof (tx_req_process_body_data_ex_core cb i d n c0) as Hc. apply rq_core_of_st in Hc.
+      destruct Hc as [Hc Hs]. repeat split; [exact Hc|apply tx_req_process_body_data_ex_rc|left; exact Hs].
+    - intros s []. }
+  destruct A as [A1 A2]. split; [exact A1|split; [exact A2|]].
+  unfold rq_with_tx in H. destruct (c_in_tx c) as [i|].
+  - pose proof (tx_req_process_body_data_ex_core cb i d n c) as Hc. rewrite H in Hc. cbn [snd] in Hc.
+    apply rq_moved_core. exact Hc.
+  - injection H as <- <-. apply rq_moved_refl.
+Qed.
+
+(* a step from a moved parser, finishing with a moved parser and a fixed result *)
+Lemma rq_step_moved_rc c c' rc : rq_pre c -> rq_moved c c' -> ~ (rc = ST_DATA \/ rc = ST_DATA_BUFFER) -> rq_step_ok c c' rc.
+Proof.
+  intros Hp Hm Hr. pose proof (rq_pre_moved c c' Hm Hp) as Hp'. destruct Hm as (P & S & C).
+  unfold rq_step_ok. unfold rq_pos, rq_len, rq_rd in *. injection P as H1 H2 H3 H4 H5.
+  repeat split; try congruence; try lia; try apply Hp'; try (intros Hd; contradiction).
+Qed.
+
+Lemma rq_step_gen c c' rc :
+  rq_pre c -> rq_pos c' = rq_pos c -> (rq_cs c' = rq_cs c \/ rq_cs c' = rq_rd c') ->
+  (c_in_state c' = c_in_state c \/ rq_plain (c_in_state c')) ->
+  (~ (rc = ST_DATA \/ rc = ST_DATA_BUFFER) \/ rq_rd c = rq_len c) -> rq_step_ok c c' rc.
+Proof.
+  intros [(Hb & Hc & Hd) Hi] P C S R. unfold rq_step_ok, rq_pre, rq_wf, rq_pos, rq_len, rq_rd, rq_cs in *.
+  injection P as H1 H2 H3 H4 H5. rewrite H1, H2, H5. repeat split; try lia; try assumption.
+  - destruct S as [S|S]; [|apply rq_inv_plain; exact S]. unfold rq_inv in *. rewrite S, H3, H4. exact Hi.
+  - intros Hx. destruct R as [R|R]; [contradiction|exact R].
+Qed.
+
+Lemma rq_step_plain c c' rc :
+  rq_pre c -> rq_len c' = rq_len c -> rq_rd c' = rq_rd c -> k_data (c_in c') = k_data (c_in c) ->
+  (rq_cs c' = rq_cs c \/ rq_cs c' = rq_rd c') -> rq_plain (c_in_state c') ->
+  (~ (rc = ST_DATA \/ rc = ST_DATA_BUFFER) \/ rq_rd c = rq_len c) -> rq_step_ok c c' rc.
+Proof.
+  intros [(Hb & Hc & Hd) Hi] H1 H2 H5 C S R. unfold rq_step_ok, rq_pre, rq_wf, rq_len, rq_rd, rq_cs in *.
+  rewrite H1, H2, H5. repeat split; try lia; try assumption.
+  - apply rq_inv_plain; exact S.
+  - intros Hx. destruct R as [R|R]; [contradiction|exact R].
+Qed.
+
+(* htp_connp_REQ_LINE_complete: a pass, or the "nothing to parse" exit (HTP_DATA) on an empty consolidated region *)
+Lemma REQ_LINE_complete_step c rc c' :
+  rq_pre c -> REQ_LINE_complete cb g c = (rc, c') ->
+  rq_step_ok c c' rc \/
+  (rc = ST_DATA /\ rq_moved c c' /\ fst (fst (req_consolidate_data g c)) = ST_OK /\ snd (req_consolidate_data g c) = []).
+Proof.
+  intros Hp H. unfold REQ_LINE_complete in H.
+  pose proof (req_consolidate_data_moved g c) as M. destruct (req_consolidate_data g c) as [[rc1 c1] data]. cbn [fst snd] in *.
+  destruct rc1; try (injection H as <- <-; left; apply rq_step_moved_rc; auto; intros [E|E]; discriminate).
+  destruct data as [|x data].
+  - injection H as <- <-. right. split; [reflexivity|].
+    split; [eapply rq_moved_trans; [exact M|apply req_clear_buffer_moved]|]. split; reflexivity.
+  - left. destruct (htp_is_line_ignorable (g_personality g) (x :: data)).
+    + injection H as <- <-. apply rq_step_moved_rc; auto; [|intros [E|E]; discriminate].
+      eapply rq_moved_trans; [exact M|]. eapply rq_moved_trans; [apply rq_tx_upd_moved|apply req_clear_buffer_moved].
+    + pose proof (rq_tx_upd_moved (fun t => htp_parse_request_line g (t <| t_request_line := Some (htp_chomp (x :: data)) |>)) c1) as Q.
+      remember (rq_tx_upd (fun t => htp_parse_request_line g (t <| t_request_line := Some (htp_chomp (x :: data)) |>)) c1) as c2 eqn:Ec2.
+      clear Ec2. pose proof (rq_moved_trans _ _ _ M Q) as M2.
+      destruct (rq_with_tx (tx_state_request_line cb g) c2) as [rc3 c3] eqn:E3.
+      apply (rq_step_via c c2 c' rc M2).
+      destruct (rq_request_line_step c2 rc3 c3 (rq_pre_moved _ _ M2 Hp) E3) as [S3 R3].
+      assert (S4 : rq_step_ok c2 c3 ST_ERROR).
+      { destruct S3 as (A1 & A2 & A3 & A4 & A5). repeat split; try assumption; try apply A4. intros [E|E]; discriminate. }
+      destruct rc3; injection H as <- <-; try exact S4.
+      destruct S3 as (A1 & A2 & A3 & A4 & A5).
+      pose proof (rq_pre_moved _ _ (req_clear_buffer_moved c3) A4) as A6.
+      unfold rq_step_ok. repeat split; try assumption; try apply A6; try (intros [E|E]; discriminate).
+Qed.
+
+(* the non-NULL chunk of a data call; on close (NULL, 0) there is nothing to read *)
+Definition rq_readable (c : connp) : Prop := k_data (c_in c) = None -> rq_len c = 0%nat.
+
+(* htp_connp_REQ_LINE *)
+Lemma REQ_LINE_loop_step n : forall c rc c',
+  rq_pre c -> rq_readable c -> (rq_len c - rq_rd c <= n)%nat -> REQ_LINE_loop cb g n c = (rc, c') -> rq_step_ok c c' rc.
+Proof.
+  induction n as [|n IH]; intros c rc c' Hp Hread Hn H; cbn [REQ_LINE_loop] in H.
+  all: pose proof (rq_peek_next_pos c) as (P1 & P2 & P3 & P4);
+       assert (M1 : rq_moved c (rq_peek_next c)) by (unfold rq_moved; tauto);
+       pose proof (rq_pre_moved _ _ M1 Hp) as Hp1.
+  all: destruct ((c_in_status (rq_peek_next c) =? c_HTP_STREAM_CLOSED) &&
+                 match k_next_byte (c_in (rq_peek_next c)) with None => true | Some _ => false end) eqn:Ecl.
+  1,3: apply andb_prop in Ecl; destruct Ecl as [_ Ecl];
+       destruct (k_next_byte (c_in (rq_peek_next c))) eqn:En; [discriminate|];
+       assert (Hend : (rq_len c <= rq_rd c)%nat) by (apply P4; reflexivity);
+       apply (rq_step_via c _ c' rc M1);
+       destruct (REQ_LINE_complete_step _ _ _ Hp1 H) as [S|(-> & M2 & _)]; [exact S|];
+       apply rq_step_moved; auto; right;
+       destruct Hp1 as [(Hb & _) _]; unfold rq_pos, rq_len, rq_rd in *; injection P1 as H1 H2 _ _ _; lia.
+  all: destruct (rq_copy_byte (rq_peek_next c)) as [c2|] eqn:Ec.
+  2,4: injection H as <- <-; apply rq_copy_byte_none in Ec; apply (rq_step_via c _ _ _ M1);
+       apply rq_step_moved; auto using rq_moved_refl; right; destruct Hp1 as [(Hb & _) _]; lia.
+  all: destruct (rq_pre_copy _ _ Hp1 Ec) as [Hp2 Hlt];
+       pose proof (rq_copy_byte_some _ _ Ec) as (C1 & C2 & C3 & C4 & C5 & C6 & C7 & C8);
+       apply (rq_step_via c _ c' rc M1); apply (rq_step_adv _ c2 c' rc C1 C8 ltac:(lia)).
+  all: destruct (rq_next_is c2 LF).
+  1,3: destruct (REQ_LINE_complete_step _ _ _ Hp2 H) as [S|(-> & M2 & E1 & E2)]; [exact S|exfalso];
+       revert E2; apply req_consolidate_nonempty; [apply Hp2|exact Hlt| |exact E1];
+       intros Hnone; rewrite C8 in Hnone; unfold rq_readable in Hread;
+       unfold rq_pos, rq_len, rq_rd in *; injection P1 as H1 H2 _ _ H5; rewrite H5 in Hnone; specialize (Hread Hnone); lia.
+  - exfalso. unfold rq_pos, rq_len, rq_rd in *. injection P1 as H1 H2 _ _ _. lia.
+  - apply (IH c2 rc c' Hp2); [| |exact H].
+    + unfold rq_readable in *. rewrite C8, C1. unfold rq_pos, rq_len in *. injection P1 as H1 _ _ _ H5. rewrite H5, H1. exact Hread.
+    + unfold rq_pos, rq_len, rq_rd in *. injection P1 as H1 H2 _ _ _. lia.
+Qed.
+Lemma REQ_LINE_fn_step c rc c' : rq_pre c -> rq_readable c -> REQ_LINE_fn cb g c = (rc, c') -> rq_step_ok c c' rc.
+Proof. intros Hp Hr H. unfold REQ_LINE_fn in H. eapply REQ_LINE_loop_step; eauto. Qed.
+
+Ltac rq_nodata := let E := fresh in intros [E|E]; discriminate.
+
+(* htp_connp_REQ_IDLE *)
+Lemma connp_tx_create_moved c : rq_inv c -> c_in_state c = REQ_IDLE ->
+  k_len (c_in (snd (connp_tx_create g c))) = k_len (c_in c) /\ c_in (snd (connp_tx_create g c)) = c_in c /\
+  c_in_state (snd (connp_tx_create g c)) = REQ_IDLE.
+Proof.
+  intros _ Hs. unfold connp_tx_create.
+  set (c1 := if (c_out_next_tx_index c <? length (c_txs c))%nat then _ else c).
+  assert (H1 : c_in c1 = c_in c /\ c_in_state c1 = c_in_state c) by (subst c1; destruct (_ <? _)%nat; split; reflexivity).
+  destruct H1 as [H1 H1s].
+  destruct ((0 <? g_max_tx g) && (g_max_tx g <? length (c_txs c)))%nat; cbn; rewrite ?H1; repeat split; congruence.
+Qed.
+Lemma REQ_IDLE_fn_step c rc c' : rq_pre c -> c_in_state c = REQ_IDLE -> REQ_IDLE_fn cb g c = (rc, c') -> rq_step_ok c c' rc.
+Proof.
+  intros Hp Hs H. unfold REQ_IDLE_fn in H. destruct (rq_at_end c) eqn:E.
+  - injection H as <- <-. apply rq_step_moved; auto using rq_moved_refl. right.
+    unfold rq_at_end in E. apply Nat.leb_le in E. destruct Hp as [(Hb & _) _]. unfold rq_len, rq_rd in *. lia.
+  - destruct Hp as [Hw Hi]. pose proof (connp_tx_create_moved c Hi Hs) as (T1 & T2 & T3).
+    destruct (connp_tx_create g c) as [[i|] c1]; cbn [snd] in *.
+    + pose proof (tx_state_request_start_spec cb i c1) as S. cbv zeta in S. rewrite H in S. cbn [fst snd] in S.
+      destruct S as (Sc & Sr & Ss). apply rq_pos_of_core in Sc. destruct Sc as [Sp Scs].
+      assert (Hst : rq_plain (c_in_state c')) by (destruct Ss as [Ss|Ss]; rewrite Ss, ?T3; split; discriminate).
+      unfold rq_step_ok, rq_pre, rq_wf, rq_pos, rq_len, rq_rd, rq_cs in *. injection Sp as S1 S2 _ _ S5.
+      rewrite S1, S2, S5, Scs, T2. repeat split; try tauto; try lia; try (apply rq_inv_plain; exact Hst).
+      intros Hd. exfalso. exact (rq_hookrc_not_data _ Sr Hd).
+    + injection H as <- <-. destruct Hw as (Hb & Hc & Hd). unfold rq_step_ok, rq_pre, rq_wf, rq_len, rq_rd, rq_cs in *. cbn. rewrite T2.
+      repeat split; try assumption; try lia; try rq_nodata. apply rq_inv_plain. cbn. rewrite T3. split; discriminate.
+Qed.
+
+(* htp_connp_REQ_PROTOCOL *)
+Lemma REQ_PROTOCOL_fn_step c rc c' : rq_pre c -> REQ_PROTOCOL_fn c = (rc, c') -> rq_step_ok c c' rc.
+Proof.
+  intros Hp H. unfold REQ_PROTOCOL_fn in H.
+  assert (G : forall c1, rq_moved c c1 -> rq_step_ok c (rq_to_headers c1) ST_OK).
+  { intros c1 (M1 & M2 & M3). unfold rq_to_headers.
+    destruct (rq_tx_upd_moved (fun t => t <| t_request_progress := c_HTP_REQUEST_HEADERS |>) (c1 <| c_in_state := REQ_HEADERS |>)) as (Q1 & Q2 & Q3).
+    apply rq_step_gen; [exact Hp|rewrite Q1; exact M1| |right; rewrite Q2; cbn; split; discriminate|left; rq_nodata].
+    change (rq_cs (c1 <| c_in_state := REQ_HEADERS |>)) with (rq_cs c1) in Q3.
+    destruct Q3 as [Q3|Q3]; [|right; exact Q3]. destruct M3 as [M3|M3]; [left; congruence|right].
+    rewrite Q3, M3. unfold rq_pos, rq_rd in *. injection Q1 as _ Q1 _ _ _. cbn in Q1. congruence. }
+  destruct (negb (t_is_protocol_0_9 (rq_tx c))).
+  - injection H as <- <-. apply G. apply rq_moved_refl.
+  - destruct (_ <? _)%nat.
+    + injection H as <- <-. apply G. apply rq_tx_upd_moved.
+    + pose proof (rq_slice_pos c (k_read (c_in c)) (k_len (c_in c))) as Q.
+      destruct (rq_slice c (k_read (c_in c)) (k_len (c_in c))) as [c1 rest]. cbn [fst] in Q. apply rq_moved_core in Q.
+      destruct (forallb htp_is_space rest); injection H as <- <-.
+      * destruct Q as (Q1 & Q2 & Q3).
+        apply rq_step_gen; [exact Hp|exact Q1|exact Q3|right; cbn; split; discriminate|left; rq_nodata].
+      * apply G. eapply rq_moved_trans; [exact Q|apply rq_tx_upd_moved].
+Qed.
+
+(* htp_connp_REQ_CONNECT_CHECK / _WAIT_RESPONSE / htp_connp_REQ_BODY_DETERMINE: no byte is read, the next state is set *)
+Lemma rq_set_state_step c s rc :
+  rq_pre c -> rq_plain s -> ~ (rc = ST_DATA \/ rc = ST_DATA_BUFFER) -> rq_step_ok c (c <| c_in_state := s |>) rc.
+Proof. intros Hp Hs Hr. apply rq_step_gen; [exact Hp|reflexivity|left; reflexivity|right; exact Hs|left; exact Hr]. Qed.
+Ltac rq_plain_tac := split; discriminate.
+
+Lemma REQ_CONNECT_CHECK_fn_step c rc c' : rq_pre c -> REQ_CONNECT_CHECK_fn c = (rc, c') -> rq_step_ok c c' rc.
+Proof.
+  intros Hp H. unfold REQ_CONNECT_CHECK_fn in H.
+  destruct (_ =? _); injection H as <- <-.
+  - apply rq_step_gen; [exact Hp|reflexivity|left; reflexivity|right; cbn; rq_plain_tac|left; rq_nodata].
+  - apply rq_set_state_step; [exact Hp|rq_plain_tac|rq_nodata].
+Qed.
+Lemma REQ_CONNECT_WAIT_RESPONSE_fn_step c rc c' : rq_pre c -> REQ_CONNECT_WAIT_RESPONSE_fn c = (rc, c') -> rq_step_ok c c' rc.
+Proof.
+  intros Hp H. unfold REQ_CONNECT_WAIT_RESPONSE_fn in H.
+  destruct (_ <=? _).
+  - injection H as <- <-. apply rq_step_gen; [exact Hp|reflexivity|left; reflexivity|left; reflexivity|left; rq_nodata].
+  - destruct (_ && _); injection H as <- <-; apply rq_set_state_step; [exact Hp|rq_plain_tac|rq_nodata|exact Hp|rq_plain_tac|rq_nodata].
+Qed.
+Lemma REQ_BODY_DETERMINE_fn_step c rc c' : rq_pre c -> REQ_BODY_DETERMINE_fn c = (rc, c') -> rq_step_ok c c' rc.
+Proof.
+  intros Hp H. unfold REQ_BODY_DETERMINE_fn in H.
+  destruct (_ =? c_HTP_CODING_CHUNKED).
+  - injection H as <- <-.
+    destruct (rq_tx_upd_moved (fun t => t <| t_request_progress := c_HTP_REQUEST_BODY |>) (c <| c_in_state := REQ_BODY_CHUNKED_LENGTH |>)) as (Q1 & Q2 & Q3).
+    apply rq_step_gen; [exact Hp|rewrite Q1; reflexivity|exact Q3|right; rewrite Q2; cbn; rq_plain_tac|left; rq_nodata].
+  - destruct (_ =? c_HTP_CODING_IDENTITY).
+    + cbv zeta in H. destruct (negb (_ =? 0)) eqn:E0; injection H as <- <-.
+      * match goal with |- rq_step_ok _ (rq_tx_upd ?f ?c1) _ => destruct (rq_tx_upd_moved f c1) as (Q1 & Q2 & Q3) end.
+        cbn in E0. apply negb_true_iff in E0. apply Z.eqb_neq in E0.
+        destruct Hp as [(Hb & Hc & Hd) Hi]. unfold rq_step_ok, rq_pre, rq_wf, rq_pos, rq_len, rq_rd, rq_cs, rq_inv in *.
+        injection Q1 as A1 A2 A3 _ A5. cbn in *. rewrite A1, A2, A5, Q2. repeat split; try lia; try assumption; try rq_nodata.
+      * apply rq_step_plain; [exact Hp|reflexivity|reflexivity|reflexivity|left; reflexivity|cbn; rq_plain_tac|left; rq_nodata].
+    + destruct (_ =? c_HTP_CODING_NO_BODY); injection H as <- <-.
+      * apply rq_set_state_step; [exact Hp|rq_plain_tac|rq_nodata].
+      * apply rq_step_gen; [exact Hp|reflexivity|left; reflexivity|left; reflexivity|left; rq_nodata].
+Qed.
+
+(* htp_connp_REQ_IGNORE_DATA_AFTER_HTTP_0_9 *)
+Lemma REQ_IGNORE_fn_step c rc c' : rq_pre c -> c_in_state c = REQ_IGNORE_DATA_AFTER_HTTP_0_9 ->
+  REQ_IGNORE_DATA_AFTER_HTTP_0_9_fn c = (rc, c') -> rq_step_ok c c' rc.
+Proof.
+  intros [(Hb & Hc & Hd) Hi] Hs H. unfold REQ_IGNORE_DATA_AFTER_HTTP_0_9_fn in H. injection H as <- <-.
+  unfold rq_step_ok, rq_pre, rq_wf, rq_len, rq_rd, rq_cs, rq_set_in in *.
+  destruct (0 <? k_len (c_in c) - k_read (c_in c))%nat; cbn; repeat split; try lia; try assumption;
+    try (apply rq_inv_plain; cbn; rewrite Hs; split; discriminate).
+Qed.
+
+(* the shared body of REQ_BODY_IDENTITY / REQ_BODY_CHUNKED_DATA *)
+Lemma rq_bytes_to_consume_spec c w : rq_pre c ->
+  (rq_bytes_to_consume c w <= rq_len c - rq_rd c)%nat /\
+  (rq_bytes_to_consume c w = 0%nat -> w <> 0 -> rq_rd c = rq_len c) /\
+  (w - Z.of_nat (rq_bytes_to_consume c w) <> 0 -> rq_bytes_to_consume c w = (rq_len c - rq_rd c)%nat).
+Proof.
+  intros [(Hb & Hc & Hd) Hi]. unfold rq_bytes_to_consume, rq_len, rq_rd in *.
+  destruct ((w <? 0) || (Z.of_nat (k_len (c_in c) - k_read (c_in c)) <? w)) eqn:E.
+  - repeat split; try lia.
+  - apply orb_false_iff in E. destruct E as [E1 E2]. apply Z.ltb_ge in E1, E2. repeat split; try lia.
+Qed.
+Lemma rq_consume_body_step n c rc c' : rq_pre c -> (n <= rq_len c - rq_rd c)%nat -> rq_consume_body cb n c = (rc, c') ->
+  rq_hookrc rc /\ rq_len c' = rq_len c /\ k_data (c_in c') = k_data (c_in c) /\ c_in_state c' = c_in_state c /\
+  c_in_body_data_left c' = c_in_body_data_left c /\ c_in_chunked_length c' = c_in_chunked_length c /\
+  (rc = ST_OK -> rq_rd c' = (rq_rd c + n)%nat /\ rq_cs c' = (rq_cs c + n)%nat) /\
+  (rc <> ST_OK -> rq_rd c' = rq_rd c /\ rq_cs c' = rq_cs c).
+Proof.
+  intros Hp Hn H. unfold rq_consume_body in H.
+  set (c1 := fst (match k_data (c_in c) with
+                  | Some _ => let '(c0, d) := rq_slice c (k_read (c_in c)) (k_read (c_in c) + n) in (c0, Some d)
+                  | None => (if (k_read (c_in c) =? 0)%nat then c else rq_fault c, None) end)).
+  assert (M1 : rq_core_st c1 = rq_core_st c).
+  { subst c1. destruct (k_data (c_in c)).
+    - pose proof (rq_slice_pos c (k_read (c_in c)) (k_read (c_in c) + n)) as Q. destruct (rq_slice c (k_read (c_in c)) (k_read (c_in c) + n)). exact Q.
+    - cbn. destruct (_ =? 0)%nat; reflexivity. }
+  destruct (match k_data (c_in c) with
+            | Some _ => let '(c0, d) := rq_slice c (k_read (c_in c)) (k_read (c_in c) + n) in (c0, Some d)
+            | None => (if (k_read (c_in c) =? 0)%nat then c else rq_fault c, None) end) as [c1' data] eqn:E1.
+  cbn [fst] in c1. subst c1.
+  destruct (rq_with_tx (fun i => tx_req_process_body_data_ex cb i data n) c1') as [rc2 c2] eqn:E2.
+  apply rq_moved_core in M1. pose proof (rq_pre_moved _ _ M1 Hp) as Hp1.
+  destruct (rq_body_data_step data n c1' rc2 c2 Hp1 E2) as (_ & R2 & M2).
+  pose proof (rq_moved_trans _ _ _ M1 M2) as M.
+  assert (Mc : rq_cs c2 = rq_cs c).
+  { unfold rq_with_tx in E2. destruct (c_in_tx c1') as [i|].
+    - pose proof (tx_req_process_body_data_ex_core cb i data n c1') as Q. rewrite E2 in Q. cbn [snd] in Q.
+      apply rq_pos_of_core_st in Q. destruct Q as (_ & Q & _). destruct M1 as (_ & _ & [M1|M1]); [congruence|].
+      (* the slice does not move the consume offset *)
+      rewrite Q. clear - E1. destruct (k_data (c_in c)).
+      + pose proof (rq_slice_pos c (k_read (c_in c)) (k_read (c_in c) + n)) as Q. destruct (rq_slice c (k_read (c_in c)) (k_read (c_in c) + n)).
+        injection E1 as <- _. apply rq_pos_of_core_st in Q. tauto.
+      + injection E1 as <- _. destruct (_ =? 0)%nat; reflexivity.
+    - injection E2 as _ <-. clear - E1. destruct (k_data (c_in c)).
+      + pose proof (rq_slice_pos c (k_read (c_in c)) (k_read (c_in c) + n)) as Q. destruct (rq_slice c (k_read (c_in c)) (k_read (c_in c) + n)).
+        injection E1 as <- _. apply rq_pos_of_core_st in Q. tauto.
+      + injection E1 as <- _. destruct (_ =? 0)%nat; reflexivity. }
+  destruct M as (P & S & _). unfold rq_pos, rq_len, rq_rd, rq_cs in *. injection P as A1 A2 A3 A4 A5.
+  destruct rc2; injection H as <- <-; try (repeat split; try assumption; try congruence; intros; congruence).
+  match goal with |- context [rq_tx_upd ?f ?c0] => destruct (rq_tx_upd_moved f c0) as (Q1 & Q2 & Q3);
+    pose proof (rq_tx_upd_core f c0) as Qc end.
+  apply rq_pos_of_core_st in Qc. destruct Qc as (_ & Qc & _).
+  unfold rq_pos, rq_cs, rq_set_in in *. injection Q1 as B1 B2 B3 B4 B5. cbn in *.
+  repeat split; try assumption; try congruence; try lia; intros; congruence.
+Qed.
+
+(* htp_connp_REQ_BODY_IDENTITY *)
+Lemma REQ_BODY_IDENTITY_fn_step c rc c' : rq_pre c -> c_in_state c = REQ_BODY_IDENTITY ->
+  REQ_BODY_IDENTITY_fn cb c = (rc, c') -> rq_step_ok c c' rc.
+Proof.
+  intros Hp Hs H. unfold REQ_BODY_IDENTITY_fn in H.
+  pose proof (rq_bytes_to_consume_spec c (c_in_body_data_left c) Hp) as (N1 & N2 & N3).
+  set (n := rq_bytes_to_consume c (c_in_body_data_left c)) in *.
+  assert (Hl : c_in_body_data_left c <> 0) by (destruct Hp as [_ Hi]; unfold rq_inv in Hi; rewrite Hs in Hi; exact Hi).
+  destruct (n =? 0)%nat eqn:E0.
+  - apply Nat.eqb_eq in E0. injection H as <- <-.
+    apply rq_step_gen; [exact Hp|reflexivity|left; reflexivity|left; reflexivity|right; apply N2; assumption].
+  - apply Nat.eqb_neq in E0. destruct (rq_consume_body cb n c) as [rc2 c2] eqn:E2.
+    destruct (rq_consume_body_step n c rc2 c2 Hp N1 E2) as (R & B1 & B2 & B3 & B4 & B5 & B6 & B7).
+    pose proof Hp as [(Hb & Hc & Hd) Hi].
+    destruct rc2; try (injection H as <- <-; destruct (B7 ltac:(discriminate)) as [B8 B9];
+      unfold rq_step_ok, rq_pre, rq_wf, rq_inv, rq_len, rq_rd, rq_cs in *; rewrite B1, B2, B3, B4, B5, B8, B9;
+      repeat split; try lia; try assumption; try rq_nodata;
+      destruct R as [R|[R|R]]; discriminate).
+    destruct (B6 eq_refl) as [B8 B9].
+    destruct (_ =? 0) eqn:Ez in H; injection H as <- <-; cbn in Ez.
+    + unfold rq_step_ok, rq_pre, rq_wf, rq_len, rq_rd, rq_cs in *. cbn. rewrite B1, B2, B8, B9.
+      repeat split; try lia; try assumption; try rq_nodata; try (apply rq_inv_plain; cbn; split; discriminate); try exact I.
+    + apply Z.eqb_neq in Ez. rewrite B4 in Ez. specialize (N3 Ez).
+      unfold rq_step_ok, rq_pre, rq_wf, rq_inv, rq_len, rq_rd, rq_cs in *. cbn. rewrite B1, B2, B3, B8, B9, Hs.
+      repeat split; try lia; try assumption; try (rewrite B4; exact Ez).
+Qed.
+
+(* htp_connp_REQ_BODY_CHUNKED_DATA *)
+Lemma REQ_BODY_CHUNKED_DATA_fn_step c rc c' : rq_pre c -> c_in_state c = REQ_BODY_CHUNKED_DATA ->
+  REQ_BODY_CHUNKED_DATA_fn cb c = (rc, c') -> rq_step_ok c c' rc.
+Proof.
+  intros Hp Hs H. unfold REQ_BODY_CHUNKED_DATA_fn in H.
+  pose proof (rq_bytes_to_consume_spec c (c_in_chunked_length c) Hp) as (N1 & N2 & N3).
+  set (n := rq_bytes_to_consume c (c_in_chunked_length c)) in *.
+  assert (Hl : c_in_chunked_length c <> 0) by (destruct Hp as [_ Hi]; unfold rq_inv in Hi; rewrite Hs in Hi; exact Hi).
+  destruct (n =? 0)%nat eqn:E0.
+  - apply Nat.eqb_eq in E0. injection H as <- <-.
+    apply rq_step_gen; [exact Hp|reflexivity|left; reflexivity|left; reflexivity|right; apply N2; assumption].
+  - apply Nat.eqb_neq in E0. destruct (rq_consume_body cb n c) as [rc2 c2] eqn:E2.
+    destruct (rq_consume_body_step n c rc2 c2 Hp N1 E2) as (R & B1 & B2 & B3 & B4 & B5 & B6 & B7).
+    pose proof Hp as [(Hb & Hc & Hd) Hi].
+    destruct rc2; try (injection H as <- <-; destruct (B7 ltac:(discriminate)) as [B8 B9];
+      unfold rq_step_ok, rq_pre, rq_wf, rq_inv, rq_len, rq_rd, rq_cs in *; rewrite B1, B2, B3, B4, B5, B8, B9;
+      repeat split; try lia; try assumption; try rq_nodata;
+      destruct R as [R|[R|R]]; discriminate).
+    destruct (B6 eq_refl) as [B8 B9].
+    destruct (_ =? 0) eqn:Ez in H; injection H as <- <-; cbn in Ez.
+    + unfold rq_step_ok, rq_pre, rq_wf, rq_len, rq_rd, rq_cs in *. cbn. rewrite B1, B2, B8, B9.
+      repeat split; try lia; try assumption; try rq_nodata; try (apply rq_inv_plain; cbn; split; discriminate); try exact I.
+    + apply Z.eqb_neq in Ez. rewrite B5 in Ez. specialize (N3 Ez).
+      unfold rq_step_ok, rq_pre, rq_wf, rq_inv, rq_len, rq_rd, rq_cs in *. cbn. rewrite B1, B2, B3, B8, B9, Hs.
+      repeat split; try lia; try assumption; try (rewrite B5; exact Ez).
+Qed.
+
+(* htp_connp_REQ_BODY_CHUNKED_DATA_END *)
+Lemma REQ_BODY_CHUNKED_DATA_END_loop_step n : forall c rc c',
+  rq_pre c -> c_in_state c = REQ_BODY_CHUNKED_DATA_END -> (rq_len c - rq_rd c <= n)%nat ->
+  REQ_BODY_CHUNKED_DATA_END_loop n c = (rc, c') -> rq_step_ok c c' rc.
+Proof.
+  induction n as [|n IH]; intros c rc c' Hp Hs Hn H; cbn [REQ_BODY_CHUNKED_DATA_END_loop] in H.
+  all: destruct (rq_next_byte c) as [c1|] eqn:E1.
+  2,4: injection H as <- <-; apply rq_next_byte_none in E1;
+       apply rq_step_gen; [exact Hp|reflexivity|left; reflexivity|left; reflexivity|right; destruct Hp as [(Hb & _) _]; lia].
+  all: pose proof (rq_pre_next _ _ Hp E1) as Hp1;
+       pose proof (rq_next_byte_some _ _ E1) as (C1 & C2 & C3 & C4 & C5 & C6 & C7 & C8);
+       match type of H with context [rq_tx_upd ?f ?cx] => destruct (rq_tx_upd_moved f cx) as (Q1 & Q2 & Q3);
+         pose proof (rq_pre_moved _ _ (rq_tx_upd_moved f cx) Hp1) as Hp2; remember (rq_tx_upd f cx) as c2 eqn:Ec2; clear Ec2 end;
+       assert (D1 : rq_len c2 = rq_len c) by (unfold rq_pos, rq_len in *; injection Q1 as A1 _ _ _ _; congruence);
+       assert (D2 : k_data (c_in c2) = k_data (c_in c)) by (unfold rq_pos in *; injection Q1 as _ _ _ _ A5; congruence);
+       assert (D3 : rq_rd c2 = S (rq_rd c)) by (unfold rq_pos, rq_rd in *; injection Q1 as _ A2 _ _ _; congruence);
+       apply (rq_step_adv c c2 c' rc D1 D2 ltac:(lia)).
+  all: destruct (rq_next_is c2 LF).
+  1,3: injection H as <- <-; apply rq_set_state_step; [exact Hp2|rq_plain_tac|rq_nodata].
+  - exfalso. lia.
+  - apply (IH c2 rc c' Hp2); [congruence|lia|exact H].
+Qed.
+Lemma REQ_BODY_CHUNKED_DATA_END_fn_step c rc c' : rq_pre c -> c_in_state c = REQ_BODY_CHUNKED_DATA_END ->
+  REQ_BODY_CHUNKED_DATA_END_fn c = (rc, c') -> rq_step_ok c c' rc.
+Proof. intros Hp Hs H. unfold REQ_BODY_CHUNKED_DATA_END_fn in H. eapply REQ_BODY_CHUNKED_DATA_END_loop_step; eauto. Qed.
+
+(* facts carried by rq_moved, unpacked *)
+Lemma rq_moved_facts c c1 : rq_moved c c1 -> rq_pre c ->
+  rq_len c1 = rq_len c /\ rq_rd c1 = rq_rd c /\ k_data (c_in c1) = k_data (c_in c) /\ c_in_state c1 = c_in_state c /\
+  c_in_body_data_left c1 = c_in_body_data_left c /\ c_in_chunked_length c1 = c_in_chunked_length c /\ (rq_cs c1 <= rq_rd c1)%nat.
+Proof.
+  intros M Hp. pose proof (rq_pre_moved _ _ M Hp) as [(_ & Hc & _) _]. destruct M as (P & S & _).
+  unfold rq_pos, rq_len, rq_rd in *. injection P as A1 A2 A3 A4 A5. repeat split; assumption.
+Qed.
+
+(* htp_connp_REQ_BODY_CHUNKED_LENGTH *)
+Lemma REQ_BODY_CHUNKED_LENGTH_loop_step n : forall c rc c',
+  rq_pre c -> c_in_state c = REQ_BODY_CHUNKED_LENGTH -> (rq_len c - rq_rd c <= n)%nat ->
+  REQ_BODY_CHUNKED_LENGTH_loop g n c = (rc, c') -> rq_step_ok c c' rc.
+Proof.
+  induction n as [|n IH]; intros c rc c' Hp Hs Hn H; cbn [REQ_BODY_CHUNKED_LENGTH_loop] in H.
+  all: destruct (rq_copy_byte c) as [c1|] eqn:E1.
+  2,4: injection H as <- <-; apply rq_copy_byte_none in E1;
+       apply rq_step_gen; [exact Hp|reflexivity|left; reflexivity|left; reflexivity|right; destruct Hp as [(Hb & _) _]; lia].
+  all: destruct (rq_pre_copy _ _ Hp E1) as [Hp1 _];
+       pose proof (rq_copy_byte_some _ _ E1) as (C1 & C2 & C3 & C4 & C5 & C6 & C7 & C8);
+       apply (rq_step_adv c c1 c' rc C1 C8 ltac:(lia)).
+  all: destruct (rq_next_is c1 LF).
+  2: exfalso; lia.
+  3: apply (IH c1 rc c' Hp1); [congruence|lia|exact H].
+  all: pose proof (req_consolidate_data_moved g c1) as M; destruct (req_consolidate_data g c1) as [[rc1 c2] data]; cbn [fst snd] in M;
+       destruct rc1; try (injection H as <- <-; apply rq_step_moved_rc; [exact Hp1|exact M|rq_nodata]).
+  all: match type of H with context [rq_tx_upd ?f ?cx] => pose proof (rq_tx_upd_moved f cx) as M2; remember (rq_tx_upd f cx) as c3 eqn:Ec3; clear Ec3 end;
+       pose proof (rq_moved_trans _ _ _ M M2) as M3; destruct (parse_chunked_length (htp_chomp data)) as [v ext];
+       pose proof (rq_moved_facts _ _ M3 Hp1) as (F1 & F2 & F3 & F4 & F5 & F6 & F7); pose proof Hp1 as [(Hb & Hc & Hd) Hi].
+  all: destruct (0 <? v) eqn:Ev; [apply Z.ltb_lt in Ev|destruct (v =? 0) eqn:Ev0]; injection H as <- <-.
+  1,4: unfold rq_step_ok, rq_pre, rq_wf, rq_inv, rq_len, rq_rd, rq_cs in *; cbn; rewrite F1, F2, F3;
+       repeat split; try lia; try assumption; try rq_nodata.
+  1,3: match goal with |- rq_step_ok _ (rq_tx_upd ?f ?cx) _ => destruct (rq_tx_upd_moved f cx) as (Q1 & Q2 & Q3) end;
+       unfold rq_step_ok, rq_pre, rq_wf, rq_pos, rq_len, rq_rd, rq_cs in *; injection Q1 as A1 A2 _ _ A5; cbn in *;
+       rewrite A1, A2, A5, F1, F2, F3; repeat split; try lia; try assumption; try rq_nodata;
+       try (apply rq_inv_plain; rewrite Q2; cbn; split; discriminate); destruct Q3 as [Q3|Q3]; rewrite Q3; cbn; lia.
+  all: unfold rq_step_ok, rq_pre, rq_wf, rq_inv, rq_len, rq_rd, rq_cs in *; cbn; rewrite F1, F2, F3, F4, C5, Hs;
+       repeat split; try lia; try assumption; try rq_nodata.
+Qed.
+Lemma REQ_BODY_CHUNKED_LENGTH_fn_step c rc c' : rq_pre c -> c_in_state c = REQ_BODY_CHUNKED_LENGTH ->
+  REQ_BODY_CHUNKED_LENGTH_fn g c = (rc, c') -> rq_step_ok c c' rc.
+Proof. intros Hp Hs H. unfold REQ_BODY_CHUNKED_LENGTH_fn in H. eapply REQ_BODY_CHUNKED_LENGTH_loop_step; eauto. Qed.
+
+(* changing in_header / in_next_byte only *)
+Lemma rq_set_header_moved c h : rq_moved c (rq_set_in (fun k => k <| k_header := h |>) c).
+Proof. unfold rq_moved. repeat split. left. reflexivity. Qed.
+Lemma rq_process_header_moved l c : rq_moved c (rq_process_header l c).
+Proof. apply rq_tx_upd_moved. Qed.
+Lemma rq_flush_header_moved c : rq_moved c (rq_flush_header c).
+Proof.
+  unfold rq_flush_header. destruct (k_header (c_in c)); [|apply rq_moved_refl].
+  eapply rq_moved_trans; [apply rq_process_header_moved|apply rq_set_header_moved].
+Qed.
+Lemma rq_peek_next_moved c : rq_moved c (rq_peek_next c).
+Proof. pose proof (rq_peek_next_pos c) as (P1 & P2 & P3 & _). unfold rq_moved. tauto. Qed.
+
+(* one complete header line *)
+Lemma rq_header_line_step c ret c2 : rq_pre c -> rq_header_line cb g c = (ret, c2) ->
+  match ret with Some (rc, c') => rq_step_ok c c' rc | None => rq_moved c c2 end.
+Proof.
+  intros Hp H. unfold rq_header_line in H.
+  pose proof (req_consolidate_data_moved g c) as M. destruct (req_consolidate_data g c) as [[rc1 c1] data]. cbn [fst snd] in M.
+  destruct rc1; try (injection H as <- <-; apply rq_step_moved_rc; [exact Hp|exact M|rq_nodata]).
+  destruct (htp_is_line_terminator (g_personality g) data false).
+  - injection H as <- <-.
+    destruct (rq_with_tx (tx_state_request_headers cb) (req_clear_buffer (rq_flush_header c1))) as [rc c'] eqn:E.
+    assert (M2 : rq_moved c (req_clear_buffer (rq_flush_header c1))).
+    { eapply rq_moved_trans; [exact M|]. eapply rq_moved_trans; [apply rq_flush_header_moved|apply req_clear_buffer_moved]. }
+    apply (rq_step_via _ _ _ _ M2). exact (proj1 (rq_request_headers_step _ _ _ (rq_pre_moved _ _ M2 Hp) E)).
+  - injection H as <- <-. eapply rq_moved_trans; [exact M|]. eapply rq_moved_trans; [|apply req_clear_buffer_moved].
+    destruct (htp_is_line_folded (htp_chomp data) =? 0).
+    + eapply rq_moved_trans; [apply rq_flush_header_moved|]. eapply rq_moved_trans; [apply rq_peek_next_moved|].
+      destruct (k_next_byte (c_in (rq_peek_next (rq_flush_header c1)))) as [b|];
+        [destruct (negb (htp_is_folding_char b))|]; first [apply rq_process_header_moved|apply rq_set_header_moved].
+    + destruct (k_header (c_in c1)) as [h|].
+      * destruct (_ <? _); [apply rq_set_header_moved|apply rq_moved_refl].
+      * eapply rq_moved_trans; [apply rq_tx_upd_moved|apply rq_set_header_moved].
+Qed.
+
+(* htp_connp_REQ_HEADERS *)
+Lemma REQ_HEADERS_loop_step n : forall c rc c',
+  rq_pre c -> (rq_len c - rq_rd c <= n)%nat -> REQ_HEADERS_loop cb g n c = (rc, c') -> rq_step_ok c c' rc.
+Proof.
+  induction n as [|n IH]; intros c rc c' Hp Hn H; cbn [REQ_HEADERS_loop] in H.
+  all: destruct (c_in_status c =? c_HTP_STREAM_CLOSED).
+  1,3: match type of H with rq_with_tx _ ?cx = _ => assert (M : rq_moved c cx) end;
+       [eapply rq_moved_trans; [eapply rq_moved_trans; [apply rq_flush_header_moved|apply req_clear_buffer_moved]|apply rq_tx_upd_moved]|];
+       apply (rq_step_via _ _ _ _ M); exact (proj1 (rq_request_headers_step _ _ _ (rq_pre_moved _ _ M Hp) H)).
+  all: destruct (rq_copy_byte c) as [c1|] eqn:E1.
+  2,4: injection H as <- <-; apply rq_copy_byte_none in E1;
+       apply rq_step_gen; [exact Hp|reflexivity|left; reflexivity|left; reflexivity|right; destruct Hp as [(Hb & _) _]; lia].
+  all: destruct (rq_pre_copy _ _ Hp E1) as [Hp1 _];
+       pose proof (rq_copy_byte_some _ _ E1) as (C1 & C2 & C3 & C4 & C5 & C6 & C7 & C8);
+       apply (rq_step_adv c c1 c' rc C1 C8 ltac:(lia)).
+  all: destruct (if rq_next_is c1 LF then rq_header_line cb g c1 else (None, c1)) as [ret c2] eqn:E2.
+  all: assert (S2 : match ret with Some (rc0, c0) => rq_step_ok c1 c0 rc0 | None => rq_moved c1 c2 end)
+         by (destruct (rq_next_is c1 LF); [exact (rq_header_line_step _ _ _ Hp1 E2)|injection E2 as <- <-; apply rq_moved_refl]).
+  all: destruct ret as [[rc0 c0]|]; [injection H as <- <-; exact S2|].
+  - exfalso. lia.
+  - apply (rq_step_via _ _ _ _ S2). apply (IH c2 rc c' (rq_pre_moved _ _ S2 Hp1)); [|exact H].
+    pose proof (rq_moved_facts _ _ S2 Hp1) as (F1 & F2 & _). lia.
+Qed.
+Lemma REQ_HEADERS_fn_step c rc c' : rq_pre c -> REQ_HEADERS_fn cb g c = (rc, c') -> rq_step_ok c c' rc.
+Proof. intros Hp H. unfold REQ_HEADERS_fn in H. eapply REQ_HEADERS_loop_step; eauto. Qed.
+
+(* reading ahead without changing state *)
+Definition rq_adv (c c' : connp) : Prop :=
+  rq_len c' = rq_len c /\ k_data (c_in c') = k_data (c_in c) /\ (rq_rd c <= rq_rd c')%nat /\ c_in_state c' = c_in_state c /\ rq_pre c'.
+Lemma rq_adv_step c c1 c' rc : rq_adv c c1 -> rq_step_ok c1 c' rc -> rq_step_ok c c' rc.
+Proof. intros (A1 & A2 & A3 & _ & _). apply rq_step_adv; assumption. Qed.
+Lemma rq_adv_of_moved c c1 : rq_pre c -> rq_moved c c1 -> rq_adv c c1.
+Proof.
+  intros Hp M. pose proof (rq_moved_facts _ _ M Hp) as (F1 & F2 & F3 & F4 & _). unfold rq_adv.
+  repeat split; try assumption; try lia; apply (rq_pre_moved _ _ M Hp).
+Qed.
+Lemma rq_adv_trans a b c : rq_adv a b -> rq_adv b c -> rq_adv a c.
+Proof. unfold rq_adv. intros (A1 & A2 & A3 & A4 & A5) (B1 & B2 & B3 & B4 & B5). repeat split; try congruence; try lia; apply B5. Qed.
+Lemma rq_adv_end c c1 rc : rq_adv c c1 -> (rq_rd c1 = rq_len c1 \/ ~ (rc = ST_DATA \/ rc = ST_DATA_BUFFER)) -> rq_step_ok c c1 rc.
+Proof.
+  intros (A1 & A2 & A3 & A4 & A5) R. unfold rq_step_ok. repeat split; try assumption; try apply A5.
+  intros Hx. destruct R as [R|R]; [exact R|contradiction].
+Qed.
+Lemma rq_adv_copy c c1 : rq_pre c -> rq_copy_byte c = Some c1 -> rq_adv c c1.
+Proof.
+  intros Hp E. destruct (rq_pre_copy _ _ Hp E) as [Hp1 _].
+  pose proof (rq_copy_byte_some _ _ E) as (C1 & C2 & C3 & C4 & C5 & C6 & C7 & C8). unfold rq_adv. repeat split; try assumption; try lia; apply Hp1.
+Qed.
+
+Lemma rq_peek_copy_until_adv stop n : forall c b c',
+  rq_pre c -> (rq_len c - rq_rd c <= n)%nat -> rq_peek_copy_until stop n c = (b, c') ->
+  rq_adv c c' /\ (b = false -> rq_rd c' = rq_len c').
+Proof.
+  induction n as [|n IH]; intros c b c' Hp Hn H; cbn [rq_peek_copy_until] in H.
+  all: pose proof (rq_adv_of_moved _ _ Hp (rq_peek_next_moved c)) as A1; pose proof A1 as (_ & _ & _ & _ & Hp1).
+  all: destruct (match k_next_byte (c_in (rq_peek_next c)) with Some b0 => stop b0 | None => false end);
+       [injection H as <- <-; split; [exact A1|discriminate]|].
+  all: destruct (rq_copy_byte (rq_peek_next c)) as [c2|] eqn:E.
+  2,4: injection H as <- <-; split; [exact A1|intros _; apply rq_copy_byte_none in E; destruct Hp1 as [(Hb & _) _]; lia].
+  all: pose proof (rq_adv_copy _ _ Hp1 E) as A2; pose proof (rq_copy_byte_some _ _ E) as (C1 & C2 & C3 & C4 & _).
+  - exfalso. destruct A1 as (B1 & _ & B3 & _). pose proof (rq_peek_next_pos c) as (P1 & _). unfold rq_pos, rq_len, rq_rd in *. injection P1 as Q1 Q2 _ _ _. lia.
+  - destruct A2 as (D1 & D2 & D3 & D4 & Hp2).
+    destruct (IH c2 b c' Hp2) as [A3 E3]; [|exact H|].
+    + pose proof (rq_peek_next_pos c) as (P1 & _). unfold rq_pos, rq_len, rq_rd in *. injection P1 as Q1 Q2 _ _ _. lia.
+    + split; [|exact E3]. eapply rq_adv_trans; [exact A1|]. eapply rq_adv_trans; [|exact A3]. unfold rq_adv. repeat split; try assumption; apply Hp2.
+Qed.
+
+(* htp_connp_REQ_CONNECT_PROBE_DATA *)
+Lemma REQ_CONNECT_PROBE_DATA_fn_step c rc c' : rq_pre c -> c_in_state c = REQ_CONNECT_PROBE_DATA ->
+  REQ_CONNECT_PROBE_DATA_fn cb g c = (rc, c') -> rq_step_ok c c' rc.
+Proof.
+  intros Hp Hs H. unfold REQ_CONNECT_PROBE_DATA_fn in H.
+  destruct (rq_peek_copy_until (fun b => (b =? LF)%N || (b =? 0)%N) (k_len (c_in c) - k_read (c_in c)) c) as [b c1] eqn:E.
+  destruct (rq_peek_copy_until_adv _ _ c b c1 Hp (Nat.le_refl _) E) as [A1 E1]. pose proof A1 as (_ & _ & _ & S1 & Hp1).
+  destruct b.
+  - pose proof (req_consolidate_data_moved g c1) as M. destruct (req_consolidate_data g c1) as [[rc1 c2] data]. cbn [fst snd] in M.
+    apply (rq_adv_step _ _ _ _ A1).
+    destruct rc1; try (injection H as <- <-; apply rq_step_moved_rc; [exact Hp1|exact M|rq_nodata]).
+    destruct (rq_probe_method data) as [mstart pos].
+    destruct (negb _).
+    + apply (rq_step_via _ _ _ _ M). exact (proj1 (rq_request_complete_step _ _ _ (rq_pre_moved _ _ M Hp1) H)).
+    + injection H as <- <-. apply (rq_step_via _ _ _ _ M).
+      apply rq_step_gen; [exact (rq_pre_moved _ _ M Hp1)|reflexivity|left; reflexivity|left; reflexivity|left; rq_nodata].
+  - injection H as <- <-. apply rq_adv_end; [exact A1|left; apply E1; reflexivity].
+Qed.
+
+(* htp_connp_REQ_FINALIZE *)
+Lemma rq_finalize_scan_adv c : rq_pre c ->
+  match rq_finalize_scan c with
+  | RF_complete c1 => rq_adv c c1
+  | RF_buffer c1 => rq_adv c c1 /\ rq_rd c1 = rq_len c1
+  | RF_probe c1 => rq_adv c c1
+  end.
+Proof.
+  intros Hp. unfold rq_finalize_scan. destruct (c_in_status c =? c_HTP_STREAM_CLOSED).
+  - apply rq_adv_of_moved; [exact Hp|apply rq_moved_refl].
+  - pose proof (rq_adv_of_moved _ _ Hp (rq_peek_next_moved c)) as A1. pose proof A1 as (_ & _ & _ & _ & Hp1).
+    destruct (k_next_byte (c_in (rq_peek_next c))) as [b|]; [|exact A1].
+    destruct (negb (b =? LF)%N || (k_read (c_in (rq_peek_next c)) <=? k_consume (c_in (rq_peek_next c)))%nat); [|exact A1].
+    destruct (rq_peek_copy_until (fun b0 => (b0 =? LF)%N) (k_len (c_in (rq_peek_next c)) - k_read (c_in (rq_peek_next c))) (rq_peek_next c)) as [b1 c1] eqn:E.
+    destruct (rq_peek_copy_until_adv _ _ _ b1 c1 Hp1 (Nat.le_refl _) E) as [A2 E2].
+    destruct b1; [exact (rq_adv_trans _ _ _ A1 A2)|split; [exact (rq_adv_trans _ _ _ A1 A2)|apply E2; reflexivity]].
+Qed.
+
+Lemma REQ_FINALIZE_fn_step c rc c' : rq_pre c -> c_in_state c = REQ_FINALIZE -> REQ_FINALIZE_fn cb g c = (rc, c') -> rq_step_ok c c' rc.
+Proof.
+  intros Hp Hs H. unfold REQ_FINALIZE_fn in H. pose proof (rq_finalize_scan_adv c Hp) as A.
+  destruct (rq_finalize_scan c) as [c1|c1|c1].
+  - pose proof A as (_ & _ & _ & _ & Hp1). apply (rq_adv_step _ _ _ _ A). exact (proj1 (rq_request_complete_step _ _ _ Hp1 H)).
+  - destruct A as [A E]. injection H as <- <-. apply rq_adv_end; [exact A|left; exact E].
+  - pose proof A as (_ & _ & _ & S1 & Hp1). apply (rq_adv_step _ _ _ _ A).
+    pose proof (req_consolidate_data_moved g c1) as M. destruct (req_consolidate_data g c1) as [[rc1 c2] data]. cbn [fst snd] in M.
+    destruct rc1; try (injection H as <- <-; apply rq_step_moved_rc; [exact Hp1|exact M|rq_nodata]).
+    apply (rq_step_via _ _ _ _ M). pose proof (rq_pre_moved _ _ M Hp1) as Hp2.
+    assert (S2 : c_in_state c2 = REQ_FINALIZE) by (destruct M as (_ & M & _); congruence).
+    destruct data as [|x data]; [exact (proj1 (rq_request_complete_step _ _ _ Hp2 H))|].
+    destruct (rq_probe_method (x :: data)) as [mstart pos].
+    (* a parser that differs from c2 in in_body_data_left only, in a plain state *)
+    assert (G : forall v, rq_adv c2 (c2 <| c_in_body_data_left := v |>)).
+    { intros v. destruct Hp2 as [(Hb & Hc & Hd) _]. unfold rq_adv, rq_pre, rq_wf, rq_len, rq_rd, rq_cs in *. cbn.
+      repeat split; try lia; try assumption. apply rq_inv_plain. cbn. rewrite S2. split; discriminate. }
+    destruct ((mstart <? pos)%nat && negb _).
+    + apply (rq_adv_step _ _ _ _ (G (-1))). pose proof (G (-1)) as (_ & _ & _ & _ & Hp3).
+      exact (proj1 (rq_request_complete_step _ _ _ Hp3 H)).
+    + set (c3 := if (mstart <? pos)%nat && (0 <? c_in_body_data_left c2) then c2 <| c_in_body_data_left := 1 |> else c2) in H.
+      assert (A3 : rq_adv c2 c3).
+      { subst c3. destruct (_ && _); [apply G|apply rq_adv_of_moved; [exact Hp2|apply rq_moved_refl]]. }
+      pose proof A3 as (_ & _ & _ & S3 & Hp3). apply (rq_adv_step _ _ _ _ A3). clearbody c3.
+      (* the data handed to the body hook comes from c4, a parser advanced from c3 *)
+      assert (F : forall c4 d, rq_adv c3 c4 ->
+                let '(rc0, c5) := rq_with_tx (fun i => tx_req_process_body_data_ex cb i (Some d) 0) c4 in
+                rq_step_ok c3 (req_clear_buffer c5) rc0).
+      { intros c4 d A4. pose proof A4 as (_ & _ & _ & S4 & Hp4).
+        destruct (rq_with_tx (fun i => tx_req_process_body_data_ex cb i (Some d) 0) c4) as [rc0 c5] eqn:E5.
+        destruct (rq_body_data_step _ _ _ _ _ Hp4 E5) as (_ & R5 & M5).
+        apply (rq_adv_step _ _ _ _ A4). apply rq_step_moved_rc; [exact Hp4| |exact (rq_hookrc_not_data _ R5)].
+        eapply rq_moved_trans; [exact M5|apply req_clear_buffer_moved]. }
+      destruct (rq_next_is c3 LF).
+      * destruct (rq_copy_byte c3) as [c4|] eqn:E4.
+        -- pose proof (rq_adv_copy _ _ Hp3 E4) as A4. pose proof A4 as (_ & _ & _ & _ & Hp4).
+           pose proof (req_consolidate_data_moved g c4) as M4. destruct (req_consolidate_data g c4) as [[rc4 c5] d2]. cbn [fst snd] in M4.
+           pose proof (rq_adv_trans _ _ _ A4 (rq_adv_of_moved _ _ Hp4 M4)) as A5.
+           assert (F5 : forall d, let '(rc0, c6) := rq_with_tx (fun i => tx_req_process_body_data_ex cb i (Some d) 0) c5 in
+                                  rq_step_ok c3 (req_clear_buffer c6) rc0) by (intros d; exact (F c5 d A5)).
+           destruct rc4;
+             match type of H with (let '(_, _) := ?t in _) = _ =>
+               match t with rq_with_tx (fun i => tx_req_process_body_data_ex cb i (Some ?d) 0) _ => specialize (F5 d) end;
+               destruct t as [rc0 c6] end;
+             injection H as <- <-; exact F5.
+        -- injection H as <- <-. apply rq_copy_byte_none in E4.
+           apply rq_step_gen; [exact Hp3|reflexivity|left; reflexivity|left; reflexivity|right; destruct Hp3 as [(Hb & _) _]; lia].
+      * pose proof (F c3 (x :: data) (rq_adv_of_moved _ _ Hp3 (rq_moved_refl c3))) as F5.
+        match type of H with (let '(_, _) := ?t in _) = _ => destruct t as [rc0 c6] end.
+        injection H as <- <-. exact F5.
+Qed.
+
+(* connp->in_state(connp), for the state the parser is in *)
+Lemma rq_state_fn_step c rc c' :
+  rq_pre c -> (c_in_state c = REQ_LINE -> rq_readable c) -> rq_state_fn cb g (c_in_state c) c = (rc, c') -> rq_step_ok c c' rc.
+Proof.
+  intros Hp Hr H. destruct (c_in_state c) eqn:Es; cbn [rq_state_fn] in H.
+  - apply REQ_IDLE_fn_step; assumption.
+  - apply REQ_LINE_fn_step; auto.
+  - apply REQ_PROTOCOL_fn_step; assumption.
+  - apply REQ_HEADERS_fn_step; assumption.
+  - apply REQ_CONNECT_CHECK_fn_step; assumption.
+  - apply REQ_CONNECT_WAIT_RESPONSE_fn_step; assumption.
+  - apply REQ_CONNECT_PROBE_DATA_fn_step; assumption.
+  - apply REQ_BODY_DETERMINE_fn_step; assumption.
+  - apply REQ_BODY_IDENTITY_fn_step; assumption.
+  - apply REQ_BODY_CHUNKED_LENGTH_fn_step; assumption.
+  - apply REQ_BODY_CHUNKED_DATA_fn_step; assumption.
+  - apply REQ_BODY_CHUNKED_DATA_END_fn_step; assumption.
+  - apply REQ_FINALIZE_fn_step; assumption.
+  - apply REQ_IGNORE_fn_step; assumption.
+Qed.
+
+(* htp_req_handle_state_change: the cursor positions and the state stay; OK / ERROR / STOP *)
+Lemma req_handle_state_change_moved c : rq_moved c (snd (req_handle_state_change cb c)) /\ rq_hookrc (fst (req_handle_state_change cb c)).
+Proof.
+  unfold req_handle_state_change.
+  destruct (match c_in_state_previous c with Some s => req_state_eqb s (c_in_state c) | None => false end);
+    [split; [apply rq_moved_refl|apply rq_hookrc_ok]|].
+  assert (R : forall h c0, rq_moved c0 (snd (req_receiver_set cb h c0)) /\ rq_hookrc (fst (req_receiver_set cb h c0))).
+  { intros h c0. unfold req_receiver_set. pose proof (req_receiver_finalize_clear_core cb c0) as Q. pose proof (req_receiver_finalize_clear_rc cb c0) as Qr.
+    destruct (req_receiver_finalize_clear cb c0) as [rc1 c1]. cbn [fst snd] in *. split; [|exact Qr].
+    eapply rq_moved_trans; [apply rq_moved_core; exact Q|]. unfold rq_moved. repeat split. left. reflexivity. }
+  match goal with |- context [let '(rc, c0) := ?t in _] => assert (T : rq_moved c (snd t) /\ rq_hookrc (fst t)); [|destruct t as [rc1 c1]] end.
+  { destruct (req_state_eqb (c_in_state c) REQ_HEADERS); [|split; [apply rq_moved_refl|apply rq_hookrc_ok]].
+    set (c0 := match c_in_tx c with Some _ => c | None => rq_fault c end).
+    assert (M0 : rq_moved c c0) by (subst c0; destruct (c_in_tx c); apply rq_moved_core; reflexivity).
+    destruct (_ =? c_HTP_REQUEST_HEADERS); [|destruct (_ =? c_HTP_REQUEST_TRAILER)].
+    - destruct (R H_REQUEST_HEADER_DATA c0) as [R1 R2]. split; [exact (rq_moved_trans _ _ _ M0 R1)|exact R2].
+    - destruct (R H_REQUEST_TRAILER_DATA c0) as [R1 R2]. split; [exact (rq_moved_trans _ _ _ M0 R1)|exact R2].
+    - split; [exact M0|apply rq_hookrc_ok]. }
+  cbn [fst snd] in T. destruct T as [T1 T2]. destruct rc1; cbn [fst snd]; split; try assumption; try apply rq_hookrc_ok.
+Qed.
+
+(* the exit: a DATA result means the whole chunk was read; a DATA_OTHER result means it was not *)
+Lemma rq_exit_data rc c c' code :
+  rq_pre c -> ((rc = ST_DATA \/ rc = ST_DATA_BUFFER) -> rq_rd c = rq_len c) ->
+  rq_exit cb g rc c = (c', code) ->
+  rq_inv c' /\ rq_len c' = rq_len c /\ (code = c_HTP_STREAM_DATA -> rq_rd c' = rq_len c') /\ (code = c_HTP_STREAM_DATA_OTHER -> (rq_rd c' < rq_len c')%nat).
+Proof.
+  intros Hp Hd H. unfold rq_exit in H.
+  assert (G : forall c1 v, rq_moved c c1 -> rq_inv (c1 <| c_in_status := v |>) /\ rq_rd (c1 <| c_in_status := v |>) = rq_rd c /\ rq_len (c1 <| c_in_status := v |>) = rq_len c).
+  { intros c1 v M. pose proof (rq_pre_moved _ _ M Hp) as [_ Hi]. pose proof (rq_moved_facts _ _ M Hp) as (F1 & F2 & _). repeat split; assumption. }
+  assert (B : forall c0, rq_moved c c0 -> rq_moved c (snd (let '(_, c1) := req_receiver_send_data cb false c0 in (ST_OK, c1)))).
+  { intros c0 M. pose proof (req_receiver_send_data_core cb false c0) as Q. destruct (req_receiver_send_data cb false c0) as [r1 c1].
+    cbn [snd] in *. eapply rq_moved_trans; [exact M|apply rq_moved_core; exact Q]. }
+  destruct rc.
+  all: try (injection H as <- <-;
+            match goal with |- rq_inv (?c1 <| c_in_status := ?v |>) /\ _ => destruct (G c1 v (rq_moved_refl c)) as (G1 & G2 & G3) end;
+            split; [exact G1|split; [exact G3|]]; split; intros E; vm_compute in E; discriminate).
+  - (* ST_DATA *)
+    pose proof (req_receiver_send_data_core cb false c) as Q. destruct (req_receiver_send_data cb false c) as [r1 c1]. cbn [snd] in Q.
+    injection H as <- <-. destruct (G c1 c_HTP_STREAM_DATA (rq_moved_core _ _ Q)) as (G1 & G2 & G3).
+    split; [exact G1|split; [exact G3|]]; split; [intros _; rewrite G2, G3; apply Hd; tauto|intros E; vm_compute in E; discriminate].
+  - (* ST_DATA_OTHER *)
+    destruct (rq_at_end c) eqn:E; injection H as <- <-;
+      match goal with |- rq_inv (?c1 <| c_in_status := ?v |>) /\ _ => destruct (G c1 v (rq_moved_refl c)) as (G1 & G2 & G3) end; (split; [exact G1|split; [exact G3|]]; split).
+    + intros _. rewrite G2, G3. unfold rq_at_end in E. apply Nat.leb_le in E. destruct Hp as [(Hb & _) _]. unfold rq_len, rq_rd in *. lia.
+    + intros E2; vm_compute in E2; discriminate.
+    + intros E2; vm_compute in E2; discriminate.
+    + intros _. rewrite G2, G3. unfold rq_at_end in E. apply Nat.leb_gt in E. exact E.
+  - (* ST_DATA_BUFFER *)
+    pose proof (req_receiver_send_data_core cb false c) as Q. destruct (req_receiver_send_data cb false c) as [r1 c1]. cbn [snd] in Q.
+    pose proof (req_buffer_moved g c1) as M2. destruct (req_buffer g c1) as [brc c2]. cbn [snd] in M2.
+    pose proof (rq_moved_trans _ _ _ (rq_moved_core _ _ Q) M2) as M.
+    destruct brc; injection H as <- <-;
+      match goal with |- rq_inv (?cx <| c_in_status := ?v |>) /\ _ => destruct (G cx v M) as (G1 & G2 & G3) end; (split; [exact G1|split; [exact G3|]]; split);
+      try (intros E; vm_compute in E; discriminate).
+    intros _. rewrite G2, G3. apply Hd. tauto.
+Qed.
+
+(* what the loop maintains between passes *)
+Definition rq_loop_inv (gap : bool) (c : connp) : Prop := rq_pre c /\ (gap = false -> rq_readable c).
+
+Lemma rq_iter_spec gap c :
+  rq_loop_inv gap c ->
+  match rq_iter cb g gap c with
+  | inr c1 => rq_loop_inv gap c1 /\ rq_len c1 = rq_len c
+  | inl (c', code) => rq_inv c' /\ rq_len c' = rq_len c /\ (code = c_HTP_STREAM_DATA -> rq_rd c' = rq_len c') /\
+                      (code = c_HTP_STREAM_DATA_OTHER -> (rq_rd c' < rq_len c')%nat)
+  end.
+Proof.
+  intros [Hp Hr]. unfold rq_iter.
+  set (dispatch := if gap then _ else _).
+  assert (D : match dispatch with Some (rc, c1) => rq_step_ok c c1 rc | None => True end).
+  { subst dispatch. destruct gap.
+    - destruct (req_state_eqb (c_in_state c) REQ_BODY_IDENTITY || req_state_eqb (c_in_state c) REQ_IGNORE_DATA_AFTER_HTTP_0_9) eqn:E.
+      + destruct (rq_state_fn cb g (c_in_state c) c) as [rc c1] eqn:E1. apply rq_state_fn_step; [exact Hp| |exact E1].
+        intros Hl. rewrite Hl in E. discriminate.
+      + destruct (req_state_eqb (c_in_state c) REQ_FINALIZE); [|exact I].
+        destruct (rq_request_complete cb g c) as [rc c1] eqn:E1. exact (proj1 (rq_request_complete_step _ _ _ Hp E1)).
+    - destruct (rq_state_fn cb g (c_in_state c) c) as [rc c1] eqn:E1. apply rq_state_fn_step; [exact Hp|intros _; apply Hr; reflexivity|exact E1]. }
+  destruct dispatch as [[rc c1]|].
+  - destruct D as (D1 & D2 & D3 & D4 & D5).
+    assert (Ex : forall rc0 c2, rq_moved c1 c2 -> ((rc0 = ST_DATA \/ rc0 = ST_DATA_BUFFER) -> rq_rd c1 = rq_len c1) ->
+                 let '(c', code) := rq_exit cb g rc0 c2 in
+                 rq_inv c' /\ rq_len c' = rq_len c /\ (code = c_HTP_STREAM_DATA -> rq_rd c' = rq_len c') /\ (code = c_HTP_STREAM_DATA_OTHER -> (rq_rd c' < rq_len c')%nat)).
+    { intros rc0 c2 M Hd. destruct (rq_exit cb g rc0 c2) as [c' code] eqn:E. pose proof (rq_moved_facts _ _ M D4) as (F1 & F2 & _).
+      destruct (rq_exit_data rc0 c2 c' code (rq_pre_moved _ _ M D4)) as (X1 & X2 & X3 & X4); [|exact E|].
+      - intros Hx. rewrite F1, F2. exact (Hd Hx).
+      - split; [exact X1|split; [congruence|split; assumption]]. }
+    destruct rc; try exact (Ex _ c1 (rq_moved_refl c1) D5).
+    destruct (c_in_status c1 =? c_HTP_STREAM_TUNNEL).
+    + destruct D4 as [_ D4]. split; [exact D4|split; [exact D1|split; intros E; vm_compute in E; discriminate]].
+    + pose proof (req_handle_state_change_moved c1) as [M R]. destruct (req_handle_state_change cb c1) as [rc2 c2]. cbn [fst snd] in M, R.
+      destruct rc2; try (apply (Ex _ c2 M); intros Hx; exfalso; exact (rq_hookrc_not_data _ R Hx)).
+      pose proof (rq_moved_facts _ _ M D4) as (F1 & F2 & F3 & _).
+      split; [|congruence]. split; [exact (rq_pre_moved _ _ M D4)|]. intros Hg. specialize (Hr Hg). unfold rq_readable in *. rewrite F3, F1, D2, D1. exact Hr.
+  - destruct Hp as [_ Hi]. split; [exact Hi|split; [reflexivity|split; intros E; vm_compute in E; discriminate]].
+Qed.
+
+Lemma rq_loop_spec fuel gap : forall c c' code,
+  rq_loop_inv gap c -> rq_loop cb g fuel gap c = (c', code) ->
+  rq_inv c' /\ rq_len c' = rq_len c /\ (code = c_HTP_STREAM_DATA -> rq_rd c' = rq_len c') /\ (code = c_HTP_STREAM_DATA_OTHER -> (rq_rd c' < rq_len c')%nat).
+Proof.
+  induction fuel as [|f IH]; intros c c' code Hinv H; cbn [rq_loop] in H.
+  - injection H as <- <-. destruct Hinv as [[_ Hi] _]. split; [exact Hi|split; [reflexivity|split; intros E; vm_compute in E; discriminate]].
+  - pose proof (rq_iter_spec gap c Hinv) as S. destruct (rq_iter cb g gap c) as [[c1 code1]|c1].
+    + injection H as <- <-. exact S.
+    + destruct S as [S Sl]. destruct (IH c1 c' code S H) as (I1 & I2 & I3). split; [exact I1|split; [congruence|exact I3]].
+Qed.
+End Steps.
+
+(* ---- req_data_data_means_all / req_data_other_means_less ----
+   For a parser whose body counters are consistent with its state (rq_inv: true of htp_connp_create's parser and kept
+   by every data call) and a chunk pointer that has len readable bytes:
+     HTP_STREAM_DATA        => in_current_read_offset = in_current_len   (everything was consumed)
+     HTP_STREAM_DATA_OTHER  => in_current_read_offset < in_current_len   (strictly less was consumed)  *)
+Theorem req_data_consumption cb g data len c c' code :
+  rq_inv c -> (forall d, data = Some d -> (len <= length d)%nat) ->
+  connp_req_data cb g data len c = (c', code) ->
+  rq_inv c' /\
+  (code = c_HTP_STREAM_DATA -> k_read (c_in c') = len /\ k_len (c_in c') = len) /\
+  (code = c_HTP_STREAM_DATA_OTHER -> (k_read (c_in c') < len)%nat /\ k_len (c_in c') = len).
+Proof.
+  intros Hi Hd H. unfold connp_req_data in H.
+  destruct (c_in_status c =? c_HTP_STREAM_STOP);
+    [injection H as <- <-; split; [exact Hi|split; intros E; vm_compute in E; discriminate]|].
+  destruct (c_in_status c =? c_HTP_STREAM_ERROR);
+    [injection H as <- <-; split; [exact Hi|split; intros E; vm_compute in E; discriminate]|].
+  destruct (match c_in_tx c with None => negb (req_state_eqb (c_in_state c) REQ_IDLE) | Some _ => false end);
+    [injection H as <- <-; split; [exact Hi|split; intros E; vm_compute in E; discriminate]|].
+  destruct ((len =? 0)%nat && negb (c_in_status c =? c_HTP_STREAM_CLOSED));
+    [injection H as <- <-; split; [exact Hi|split; intros E; vm_compute in E; discriminate]|].
+  set (c1 := (rq_set_in _ c) <| c_in_chunk_count ::= S |> <| c_in_data_counter ::= Z.add (Z.of_nat len) |>) in H.
+  destruct (c_in_status c1 =? c_HTP_STREAM_TUNNEL);
+    [injection H as <- <-; split; [exact Hi|split; intros E; vm_compute in E; discriminate]|].
+  set (c2 := if c_out_status c1 =? c_HTP_STREAM_DATA_OTHER then _ else c1) in H.
+  assert (E2 : c_in c2 = c_in c1 /\ c_in_state c2 = c_in_state c /\ c_in_body_data_left c2 = c_in_body_data_left c /\
+               c_in_chunked_length c2 = c_in_chunked_length c).
+  { subst c2. destruct (c_out_status c1 =? c_HTP_STREAM_DATA_OTHER); repeat split; reflexivity. }
+  destruct E2 as (E2 & E3 & E4 & E5).
+  assert (L : k_len (c_in c2) = len /\ k_read (c_in c2) = 0%nat /\ k_consume (c_in c2) = 0%nat /\ k_data (c_in c2) = data)
+    by (rewrite E2; repeat split; reflexivity).
+  destruct L as (L1 & L2 & L3 & L4).
+  assert (Hinv : rq_loop_inv (match data with None => (0 <? len)%nat | Some _ => false end) c2).
+  { unfold rq_loop_inv, rq_pre, rq_wf, rq_readable, rq_inv, rq_len, rq_rd, rq_cs. rewrite L1, L2, L3, L4, E3, E4, E5.
+    repeat split; try lia; try exact Hi.
+    - destruct data as [d|]; [apply Hd; reflexivity|exact I].
+    - intros Hg Hn. destruct data; [discriminate Hn|]. apply Nat.ltb_ge in Hg. lia. }
+  pose proof (rq_loop_spec cb g _ _ c2 c' code Hinv H) as (S1 & S2 & S3 & S4).
+  unfold rq_len, rq_rd in *. rewrite L1 in S2. split; [exact S1|split; intros E].
+  - split; [rewrite (S3 E); exact S2|exact S2].
+  - split; [rewrite <- S2; exact (S4 E)|exact S2].
+Qed.
+
+(* the two halves under the names of the C09 clauses *)
+Corollary req_data_data_means_all cb g data len c c' :
+  rq_inv c -> (forall d, data = Some d -> (len <= length d)%nat) ->
+  connp_req_data cb g data len c = (c', c_HTP_STREAM_DATA) -> k_read (c_in c') = len.
+Proof. intros Hi Hd H. destruct (req_data_consumption cb g data len c c' _ Hi Hd H) as (_ & A & _). exact (proj1 (A eq_refl)). Qed.
+Corollary req_data_other_means_less cb g data len c c' :
+  rq_inv c -> (forall d, data = Some d -> (len <= length d)%nat) ->
+  connp_req_data cb g data len c = (c', c_HTP_STREAM_DATA_OTHER) -> (k_read (c_in c') < len)%nat.
+Proof. intros Hi Hd H. destruct (req_data_consumption cb g data len c c' _ Hi Hd H) as (_ & _ & A). exact (proj1 (A eq_refl)). Qed.
+
+(* rq_inv is not vacuous: the fresh parser satisfies it, and every request data call keeps it *)
+Lemma rq_inv_new : rq_inv connp_new.
+Proof. exact I. Qed.
+Corollary req_data_keeps_inv cb g data len c :
+  rq_inv c -> (forall d, data = Some d -> (len <= length d)%nat) -> rq_inv (fst (connp_req_data cb g data len c)).
+Proof.
+  intros Hi Hd. destruct (connp_req_data cb g data len c) as [c' code] eqn:H.
+  exact (proj1 (req_data_consumption cb g data len c c' code Hi Hd H)).
+Qed.
+
+(* ---- termination half (statement; the measure is the one described at MReq.rq_fuel) ---- *)
+Definition rq_rank (c : connp) : nat :=
+  let closed := c_in_status c =? c_HTP_STREAM_CLOSED in
+  let has_buf := match k_buf (c_in c) with Some _ => true | None => false end in
+  let has_tx := match c_in_tx c with Some _ => true | None => false end in
+  match c_in_state c with
+  | REQ_LINE => if closed then (if has_buf then 15 else 14) else 0
+  | REQ_PROTOCOL => 13 | REQ_HEADERS => 12 | REQ_CONNECT_CHECK => 11 | REQ_CONNECT_WAIT_RESPONSE => 10
+  | REQ_CONNECT_PROBE_DATA => if has_tx then 9 else 8
+  | REQ_BODY_DETERMINE => 7
+  | REQ_BODY_IDENTITY | REQ_BODY_CHUNKED_LENGTH | REQ_BODY_CHUNKED_DATA | REQ_BODY_CHUNKED_DATA_END => 6
+  | REQ_FINALIZE => if has_tx then (if has_buf then 5 else 4) else 3
+  | REQ_IGNORE_DATA_AFTER_HTTP_0_9 => 2
+  | REQ_IDLE => 1
+  end%nat.
+Definition rq_phi (c : connp) : nat := (16 * (rq_len c - rq_rd c) + rq_rank c)%nat.
+
+(* a closed stream is only ever fed the empty chunk (htp_connp_req_close / htp_connp_close) *)
+Definition rq_closed_empty (c : connp) : Prop := c_in_status c = c_HTP_STREAM_CLOSED -> rq_len c = 0%nat.
+
+(* every pass that goes round again decreases rq_phi ... *)
+Definition req_pass_decreases_full : Prop :=
+  forall cb g gap c c1, rq_loop_inv gap c -> rq_closed_empty c -> rq_iter cb g gap c = inr c1 ->
+    (rq_phi c1 < rq_phi c)%nat /\ rq_closed_empty c1.
+(* ... hence the for(;;) of htp_connp_req_data never exhausts rq_fuel: more fuel does not change the outcome *)
+Definition req_loop_fuel_sufficient_full : Prop :=
+  forall cb g gap c k, rq_loop_inv gap c -> rq_closed_empty c ->
+    rq_loop cb g (rq_fuel (rq_len c) + k) gap c = rq_loop cb g (rq_fuel (rq_len c)) gap c.
+
+(* the second follows from the first (proved), so what is left open is the per-pass inequality *)
+Lemma rq_loop_enough_fuel cb g gap :
+  req_pass_decreases_full ->
+  forall f c k, rq_loop_inv gap c -> rq_closed_empty c -> (rq_phi c < f)%nat -> rq_loop cb g (f + k) gap c = rq_loop cb g f gap c.
+Proof.
+  intros D f. induction f as [|f IH]; intros c k Hinv Hc Hf; [lia|].
+  cbn [Nat.add rq_loop]. destruct (rq_iter cb g gap c) as [r|c1] eqn:E; [reflexivity|].
+  pose proof (rq_iter_spec cb g gap c Hinv) as S. rewrite E in S. destruct S as [S _].
+  destruct (D cb g gap c c1 Hinv Hc E) as [D1 D2].
+  apply IH; [exact S|exact D2|lia].
+Qed.
+Theorem req_loop_fuel_sufficient_partial : req_pass_decreases_full -> req_loop_fuel_sufficient_full.
+Proof.
+  intros D cb g gap c k Hinv Hc. apply (rq_loop_enough_fuel cb g gap D); [exact Hinv|exact Hc|].
+  unfold rq_phi, rq_fuel. assert (rq_rank c <= 15)%nat.
+  { unfold rq_rank. destruct (c_in_state c); repeat match goal with |- context [if ?b then _ else _] => destruct b end; lia. }
+  lia.
+Qed.
